@@ -1,15 +1,18 @@
 /-
 C18 (refinement, continued) — the other operations of the recycling loop.  Props/C18Refine.lean ties
 `Recycle.reserve` to M1's `mutReserve`; this file does the same for `advance`, `truncate`, `append`
-(`extend_from_slice`), `split_to`, `split`, dropping a part, `split_off(len)` and `unsplit`, chains the
-steps along a history, and transfers the allocation-size bound of Props/C18.lean to M1.
+(`extend_from_slice`), `split_to`, `split`, dropping a part, `split_off(len)`, `unsplit` and the round
+trip `freeze` + `BytesMut::from` / `try_into_mut`, chains the steps along a history, and transfers the
+allocation-size bound of Props/C18.lean to M1.  Every operation of `Recycle.Op` that touches the main
+handle is covered (`dropPinned` / `dropOld` only concern `pinned`, which `RecView` does not constrain;
+see `RecViewP` at the end).  The only side condition left is the one on `advance` (MAX_VEC_POS).
 -/
 import BytesVerif.Props.C18Refine
 set_option linter.unusedVariables false
 set_option linter.unusedSimpArgs false
 namespace BytesVerif.Core
 namespace C18Refine
-open OpsD
+open OpsD OpsC
 open BytesVerif.Recycle (Rec)
 
 /-! ## the shape of the conclusions -/
@@ -31,6 +34,11 @@ theorem RecView.is_mut {s : St} {h : Handle} {r : Rec} (hv : RecView s h r) :
 
 /-- `MAX_VEC_POS` of bytes_mut.rs on a 64-bit target -/
 def maxVecPos : Nat := W / 32 - 1
+
+/-- the control block of a `BytesMut` handle -/
+def arcOf : Handle → Option Nat
+  | .mut arc _ _ _ _ _ => arc
+  | _ => none
 
 /-! ## `Recycle.step`, operation by operation -/
 
@@ -245,10 +253,10 @@ theorem RecViewL_len {R : List Region} {C : List CtrlE} {arc reg : Option Nat} {
   | none => exact hv.2.2.1
   | some c => obtain ⟨_, _, _, _, _, _, _, _, rl, _⟩ := hv; exact rl
 
-/-- **`mutExtend` (= `extend_from_slice`) refines `Recycle.Op.append`** -/
-theorem extend_refines (cfg : Cfg) (e : Env) {s : St} (hI : Inv s) {i : Nat}
-    {arc reg : Option Nat} {off len cap orig : Nat}
-    (hi : s.hs[i]? = some (some (.mut arc reg off len cap orig))) (bs : List Byte) (r : Rec)
+/-- **`mutExtend` (= `extend_from_slice`) refines `Recycle.Op.append`** (under the weak invariant
+`WInv`, which also holds in the middle of `unsplit`) -/
+theorem extend_refines_w (cfg : Cfg) (e : Env) {s : St} {arc reg : Option Nat} {off len cap orig : Nat}
+    (hW : WInv s (.mut arc reg off len cap orig)) (bs : List Byte) (r : Rec)
     (hv : RecView s (.mut arc reg off len cap orig) r) (h' : Handle) (s' : St)
     (hok : mutExtend cfg e (.mut arc reg off len cap orig) bs s = .ok h' s') :
     s'.hs = s.hs ∧ RecViewL s'.regions s'.ctrls h' (Recycle.step r (.append bs.length)) ∧
@@ -259,9 +267,9 @@ theorem extend_refines (cfg : Cfg) (e : Env) {s : St} (hI : Inv s) {i : Nat}
   | ub w s1 => rw [hm] at hok; cases hok
   | ok h1 s1 =>
     rw [hm] at hok
-    obtain ⟨e1, e2, e3⟩ := reserve_refines_strong cfg e hI hi bs.length r hv h1 s1 hm
+    obtain ⟨e1, e2, e3⟩ := reserve_refines_w cfg e hW bs.length r hv h1 s1 hm
     have e2' : RecViewL s1.regions s1.ctrls h1 (Recycle.reserve r bs.length) := e2
-    obtain ⟨arc1, reg1, off1, len1, cap1, orig1, rfl⟩ := RecView.is_mut e2
+    obtain ⟨arc1, reg1, off1, len1, cap1, orig1, rfl⟩ := RecView.is_mut (s := s1) e2
     have rl := RecViewL_len e2'
     simp only at hok
     by_cases hc : cap1 - len1 < bs.length
@@ -281,6 +289,16 @@ theorem extend_refines (cfg : Cfg) (e : Env) {s : St} (hI : Inv s) {i : Nat}
         refine ⟨by rw [f2, e1], ?_, by rw [f3]; exact e3⟩
         rw [f1]
         exact RecViewL_set_len _ (RecViewL_congr_size f4 e2')
+
+/-- **`mutExtend` (= `extend_from_slice`) refines `Recycle.Op.append`** -/
+theorem extend_refines (cfg : Cfg) (e : Env) {s : St} (hI : Inv s) {i : Nat}
+    {arc reg : Option Nat} {off len cap orig : Nat}
+    (hi : s.hs[i]? = some (some (.mut arc reg off len cap orig))) (bs : List Byte) (r : Rec)
+    (hv : RecView s (.mut arc reg off len cap orig) r) (h' : Handle) (s' : St)
+    (hok : mutExtend cfg e (.mut arc reg off len cap orig) bs s = .ok h' s') :
+    s'.hs = s.hs ∧ RecViewL s'.regions s'.ctrls h' (Recycle.step r (.append bs.length)) ∧
+    allocCount s'.events + r.allocs = allocCount s.events + (Recycle.step r (.append bs.length)).allocs :=
+  extend_refines_w cfg e (winv_of_inv hI hi) bs r hv h' s' hok
 
 /-- **`Op.extend i bs` refines `Recycle.Op.append bs.length`** (no side condition) -/
 theorem step_extend_refines (cfg : Cfg) (e : Env) {s s' : St} (hw : WFx s) {i : Nat} {bs : List Byte}
@@ -557,10 +575,27 @@ theorem step_splitOffTail_refines (cfg : Cfg) (e : Env) {s s' : St} (hw : WFx s)
 
 /-! ## 8. unsplit of a contiguous part -/
 
-theorem rstep_unsplitLast (r : Rec) (n cp : Nat) (hp : r.parts ≠ 0) (hl : r.len = r.cap) :
+/-- `*self = other` -/
+theorem rstep_unsplitLast_empty (r : Rec) (n cp : Nat) (h0 : r.len = 0) :
+    Recycle.step r (.unsplitLast n cp) = { r with len := n, cap := cp, parts := r.parts - 1 } := by
+  simp [Recycle.step, h0]
+
+/-- the empty part is dropped -/
+theorem rstep_unsplitLast_drop (r : Rec) (n : Nat) (h0 : r.len ≠ 0) :
+    Recycle.step r (.unsplitLast n 0) = { r with parts := r.parts - 1 } := by
+  simp [Recycle.step, h0]
+
+/-- the halves are merged -/
+theorem rstep_unsplitLast_merge (r : Rec) (n cp : Nat) (h0 : r.len ≠ 0) (hc : cp ≠ 0) (hl : r.len = r.cap) :
     Recycle.step r (.unsplitLast n cp) =
       { r with len := r.len + n, cap := r.cap + cp, parts := r.parts - 1 } := by
-  simp [Recycle.step, hp, hl]
+  simp only [Recycle.step, if_neg h0, if_neg hc, if_pos hl]
+
+/-- the fall-back: `extend_from_slice`, then the part is dropped -/
+theorem rstep_unsplitLast_copy (r : Rec) (n cp : Nat) (h0 : r.len ≠ 0) (hc : cp ≠ 0) (hl : r.len ≠ r.cap) :
+    Recycle.step r (.unsplitLast n cp) =
+      { Recycle.step r (.append n) with parts := (Recycle.step r (.append n)).parts - 1 } := by
+  simp only [Recycle.step, if_neg h0, if_neg hc, if_neg hl]
 
 /-- a part that starts where the contents of the main handle end and has capacity: the main handle
 is full (`len = cap`) — exclusivity (W4) -/
@@ -580,15 +615,18 @@ theorem contiguous_full {s : St} (hI : Inv s) {i j c : Nat} {reg : Option Nat}
     omega
 
 /-- **`Op.unsplit i j` of a part `j` on the same control block that starts at the end of the main
-handle's contents refines `Recycle.Op.unsplitLast olen ocap`**, provided the main handle is full
-(`len = cap`) whenever the part has zero capacity (with `ocap ≠ 0` fullness follows from
-exclusivity).  Without the side condition the models disagree, see `Witness` below. -/
+handle's contents refines `Recycle.Op.unsplitLast olen ocap`** — no side condition: the three branches
+M1 (like `BytesMut::unsplit` / `try_unsplit`) can take for such a part are the first three branches of
+`Recycle.step _ (.unsplitLast _ _)`; M1 merges on `ptr + len == other.ptr` alone, the recycling model
+asks for `len = cap`, which for a part with capacity is the same by exclusivity (`contiguous_full`).
+The fourth branch of the recycling model (fall-back to `extend_from_slice`) is not reachable for a
+part in this position; it is what M1 does for a part of the same block elsewhere, see
+`step_unsplit_copy_refines`. -/
 theorem step_unsplitLast_refines (cfg : Cfg) (e : Env) {s s' : St} (hw : WFx s) {i j c : Nat} {v : Val}
     {reg : Option Nat} {off len cap orig olen ocap oorig : Nat}
     (hi : s.hs[i]? = some (some (.mut (some c) reg off len cap orig))) (r : Rec)
     (hv : RecView s (.mut (some c) reg off len cap orig) r)
     (hj : s.hs[j]? = some (some (.mut (some c) reg (off + len) olen ocap oorig)))
-    (hfull : ocap = 0 → len = cap)
     (hok : step cfg e (.unsplit i j) s = .ok v s') :
     Sim s r i s' (Recycle.step r (.unsplitLast olen ocap)) := by
   have hI := hw.inv
@@ -596,10 +634,6 @@ theorem step_unsplitLast_refines (cfg : Cfg) (e : Env) {s s' : St} (hw : WFx s) 
   by_cases hij : i = j
   · simp only [hij, if_true, panic_apply] at hok; cases hok
   simp only [hij, if_false, bind_apply, getHandle_eq hi, getHandle_eq hj] at hok
-  have hlc : len = cap := by
-    by_cases hoc : ocap = 0
-    · exact hfull hoc
-    · exact contiguous_full hI hij hi hj hoc
   obtain ⟨_, _, _⟩ := handleOKL_mutA.mp (hI.hok i _ hi)
   obtain ⟨holc, _, _⟩ := handleOKL_mutA.mp (hI.hok j _ hj)
   obtain ⟨vreg, vlen, vcap, vorig, rc, he, ra, ro, rl, rcp, rorig, rA, rp⟩ := RecView_arc.mp hv
@@ -611,28 +645,797 @@ theorem step_unsplitLast_refines (cfg : Cfg) (e : Env) {s s' : St} (hw : WFx s) 
   have hrel := releaseCtrl_dec (s := { s with hs := s.hs.set j none }) he rfl (by simp only; omega) hne1
   have hi' : (s.hs.set j none)[i]? = some (some (.mut (some c) reg off len cap orig)) := by
     rw [lookup_set_ne _ (Ne.symm hij)]; exact hi
-  rw [rstep_unsplitLast r olen ocap (by omega) (by omega)]
-  have hview : ∀ o l cp g, r.off = o → r.len + olen = l → r.cap + ocap = cp →
+  -- any view `(o, l, cp)` on the block, once the other reference is released
+  have hview : ∀ o l cp g L CP, r.off = o → L = l → CP = cp →
       RecViewL s.regions (s.ctrls.set c ⟨.sharedV vreg vlen vcap vorig, rc - 1, true⟩)
-        (.mut (some c) reg o l cp g) { r with len := r.len + olen, cap := r.cap + ocap, parts := r.parts - 1 } :=
-    fun o l cp g h1 h2 h3 => ⟨vreg, vlen, vcap, vorig, rc - 1, lookup_set_eq _ he, ra, h1, h2, h3, rorig, rA,
-      by show r.parts - 1 = rc - 1 - 1; omega⟩
+        (.mut (some c) reg o l cp g) { r with len := L, cap := CP, parts := r.parts - 1 } :=
+    fun o l cp g L CP h1 h2 h3 => ⟨vreg, vlen, vcap, vorig, rc - 1, lookup_set_eq _ he, ra, h1, h2, h3,
+      rorig, rA, by show r.parts - 1 = rc - 1 - 1; omega⟩
   by_cases hl0 : len = 0
-  · -- `*self = other`: the old (empty, zero-capacity) main handle is dropped
+  · -- `*self = other`: the old (empty) main handle is dropped, whatever capacity it had
     simp only [hl0, if_true, bind_apply, killHandle_apply, mutDrop, hrel, setHandle_apply, pure_apply] at hok
     obtain ⟨_, rfl⟩ := R.ok.inj hok
-    exact ⟨_, lookup_set_eq _ hi', hview _ _ _ _ (by omega) (by omega) (by omega), rfl⟩
+    rw [rstep_unsplitLast_empty r olen ocap (by omega)]
+    exact ⟨_, lookup_set_eq _ hi', hview _ _ _ _ _ _ (by omega) rfl rfl, rfl⟩
   · by_cases hoc : ocap = 0
-    · -- the empty part is dropped
+    · -- the empty part is dropped, whether or not the main handle is full
       simp only [hl0, if_false, hoc, if_true, bind_apply, killHandle_apply, mutDrop, hrel, pure_apply] at hok
       obtain ⟨_, rfl⟩ := R.ok.inj hok
-      exact ⟨_, hi', hview _ _ _ _ ro (by omega) (by omega), rfl⟩
-    · -- the two halves are merged
+      rw [hoc, rstep_unsplitLast_drop r olen (by omega)]
+      exact ⟨_, hi', hview _ _ _ _ r.len r.cap ro rl rcp, rfl⟩
+    · -- the two halves are merged; the main handle is full by exclusivity
+      have hlc : len = cap := contiguous_full hI hij hi hj hoc
       simp only [hl0, if_false, hoc, bind_apply] at hok
       rw [if_pos ⟨trivial, trivial, rfl, trivial⟩] at hok
       simp only [bind_apply, killHandle_apply, mutDrop, hrel, setHandle_apply, pure_apply] at hok
       obtain ⟨_, rfl⟩ := R.ok.inj hok
-      exact ⟨_, lookup_set_eq _ hi', hview _ _ _ _ ro (by omega) (by omega), rfl⟩
+      rw [rstep_unsplitLast_merge r olen ocap (by omega) hoc (by omega)]
+      exact ⟨_, lookup_set_eq _ hi', hview _ _ _ _ _ _ ro (by omega) (by omega), rfl⟩
+
+/-! ## 8b. unsplit of a part that cannot be merged: the fall-back to `extend_from_slice` -/
+
+/-- what a frame lemma says: handles, allocation count and region sizes are untouched -/
+def Frame (s s' : St) : Prop :=
+  s'.hs = s.hs ∧ allocCount s'.events = allocCount s.events ∧ ∀ x, bufSizeL s'.regions x = bufSizeL s.regions x
+
+theorem Frame.rfl' (s : St) : Frame s s := ⟨rfl, rfl, fun _ => rfl⟩
+theorem Frame.trans {s s1 s2 : St} (h1 : Frame s s1) (h2 : Frame s1 s2) : Frame s s2 :=
+  ⟨h2.1.trans h1.1, h2.2.1.trans h1.2.1, fun x => (h2.2.2 x).trans (h1.2.2 x)⟩
+
+theorem getCtrl_ok {c : Nat} {s s1 : St} {e : CtrlE} (h : getCtrl c s = .ok e s1) : s1 = s := by
+  unfold getCtrl at h
+  cases hc : s.ctrls[c]? with
+  | none => simp only [hc] at h; cases h
+  | some e0 =>
+    simp only [hc] at h
+    by_cases hl : e0.live = true
+    · simp only [hl, if_true] at h; exact (R.ok.inj h).2.symm
+    · simp only [hl] at h; cases h
+
+theorem freeCtrl_frame {c : Nat} {s s' : St} (h : freeCtrl c s = .ok () s') :
+    Frame s s' ∧ s'.regions = s.regions := by
+  simp only [freeCtrl, bind_apply] at h
+  cases hg : getCtrl c s with
+  | panic s1 => rw [hg] at h; cases h
+  | ub w s1 => rw [hg] at h; cases h
+  | ok e0 s1 =>
+    rw [hg] at h
+    obtain rfl := getCtrl_ok hg
+    simp only [setCtrl_apply, emit_apply] at h
+    obtain ⟨_, rfl⟩ := R.ok.inj h
+    exact ⟨⟨rfl, by simp [allocCount, List.countP_cons, isAlloc], fun _ => rfl⟩, rfl⟩
+
+theorem freeRegion_frame {r size : Nat} {s s' : St} (h : freeRegion r size s = .ok () s') : Frame s s' := by
+  simp only [freeRegion, bind_apply, getRegion] at h
+  cases hr : s.regions[r]? with
+  | none => simp only [hr] at h; cases h
+  | some rg =>
+    simp only [hr] at h
+    by_cases hl : (!rg.live) = true
+    · rw [if_pos hl] at h; cases h
+    · rw [if_neg hl] at h
+      by_cases hsz : rg.size ≠ size
+      · rw [if_pos hsz] at h; cases h
+      · rw [if_neg hsz] at h
+        cases hk : rg.kind with
+        | heap o =>
+          simp only [hk, bind_apply, setRegion_apply, emit_apply, Bool.false_eq_true, if_false] at h
+          obtain ⟨_, rfl⟩ := R.ok.inj h
+          refine ⟨rfl, by simp [allocCount, List.countP_cons, isAlloc], fun x => ?_⟩
+          cases x with
+          | none => rfl
+          | some x =>
+            simp only [bufSizeL]
+            by_cases hx : x = r
+            · subst hx
+              simp [regionSizeL_def, hr, lookup_set_eq _ hr]
+            · exact regionSizeL_set_ne _ (Ne.symm hx)
+        | static => simp only [hk, ub_apply, Bool.false_eq_true, if_false] at h; cases h
+        | ownerMem o => simp only [hk, ub_apply, Bool.false_eq_true, if_false] at h; cases h
+
+theorem vecFree_frame {reg : Option Nat} {cap : Nat} {s s' : St} (h : vecFree reg cap s = .ok () s') :
+    Frame s s' := by
+  cases reg with
+  | none =>
+    simp only [vecFree] at h
+    by_cases h0 : cap = 0
+    · simp only [h0, if_true, pure_apply] at h
+      obtain ⟨_, rfl⟩ := R.ok.inj h
+      exact Frame.rfl' _
+    · simp only [h0, if_false, ub_apply] at h; cases h
+  | some r =>
+    simp only [vecFree] at h
+    by_cases h0 : cap = 0
+    · simp only [h0, if_true, ub_apply] at h; cases h
+    · simp only [h0, if_false] at h
+      exact freeRegion_frame h
+
+/-- **a successful `release` of a control block** (whichever branch it takes: the count is decremented,
+or the block and its buffer are freed) leaves the handle table, the number of byte-buffer allocations
+and the size of every region alone -/
+theorem releaseCtrl_frame {c : Nat} {s s' : St} (h : releaseCtrl c s = .ok () s') : Frame s s' := by
+  simp only [releaseCtrl, bind_apply] at h
+  cases hg : getCtrl c s with
+  | panic s1 => rw [hg] at h; cases h
+  | ub w s1 => rw [hg] at h; cases h
+  | ok e0 s1 =>
+    rw [hg] at h
+    obtain rfl := getCtrl_ok hg
+    simp only [ite_apply'] at h
+    by_cases h0 : e0.rc = 0
+    · rw [if_pos h0] at h; cases h
+    · rw [if_neg h0] at h
+      by_cases h1 : e0.rc ≠ 1
+      · rw [if_pos h1] at h
+        simp only [setCtrl_apply] at h
+        obtain ⟨_, rfl⟩ := R.ok.inj h
+        exact Frame.rfl' _
+      · rw [if_neg h1] at h
+        simp only [bind_apply, setCtrl_apply] at h
+        obtain ⟨ct, rc, live⟩ := e0
+        have hset : ∀ x, Frame s1 { s1 with ctrls := s1.ctrls.set c x } := fun x => ⟨rfl, rfl, fun _ => rfl⟩
+        cases ct with
+        | sharedB reg cap =>
+          simp only [bind_apply] at h
+          cases hf : freeRegion reg cap { s1 with ctrls := s1.ctrls.set c ⟨.sharedB reg cap, 0, live⟩ } with
+          | panic s2 => rw [hf] at h; cases h
+          | ub w s2 => rw [hf] at h; cases h
+          | ok u s2 =>
+            rw [hf] at h
+            exact Frame.trans (Frame.trans (hset _) (freeRegion_frame hf)) (freeCtrl_frame h).1
+        | sharedV reg vlen vcap orig =>
+          simp only [bind_apply] at h
+          cases hf : vecFree reg vcap { s1 with ctrls := s1.ctrls.set c ⟨.sharedV reg vlen vcap orig, 0, live⟩ } with
+          | panic s2 => rw [hf] at h; cases h
+          | ub w s2 => rw [hf] at h; cases h
+          | ok u s2 =>
+            rw [hf] at h
+            exact Frame.trans (Frame.trans (hset _) (vecFree_frame hf)) (freeCtrl_frame h).1
+        | owned o =>
+          simp only [bind_apply, emit_apply, modify_apply] at h
+          have hfr := (freeCtrl_frame h).1
+          refine Frame.trans ?_ hfr
+          refine ⟨rfl, by simp [allocCount, List.countP_cons, isAlloc], fun x => ?_⟩
+          cases x with
+          | none => rfl
+          | some x =>
+            simp only [bufSizeL, regionSizeL_def, List.getElem?_map]
+            cases s1.regions[x]? with
+            | none => rfl
+            | some rg => simp only [Option.map_some]; split <;> rfl
+
+theorem mutReserveInner_arc_shape (cfg : Cfg) (e : Env) {c : Nat} {reg : Option Nat} {off len cap orig k : Nat}
+    {s s' : St} {h' : Handle} {b : Bool}
+    (hok : mutReserveInner cfg e (.mut (some c) reg off len cap orig) k true s = .ok (h', b) s') :
+    arcOf h' = some c ∨ arcOf h' = none := by
+  simp only [mutReserveInner, bind_apply, ite_apply'] at hok
+  by_cases hW : len + k ≥ W
+  · simp only [hW, if_true, panic_apply] at hok; cases hok
+  simp only [hW, if_false] at hok
+  cases hg : getCtrl c s with
+  | panic s1 => rw [hg] at hok; cases hok
+  | ub w s1 => rw [hg] at hok; cases hok
+  | ok ce s1 =>
+    rw [hg] at hok
+    simp only at hok
+    obtain ⟨ct, rc, live⟩ := ce
+    cases ct with
+    | sharedB r0 cp => simp only [ub_apply] at hok; cases hok
+    | owned o => simp only [ub_apply] at hok; cases hok
+    | sharedV vreg vlen vcap vorig =>
+      simp only at hok
+      by_cases hu : rc = 1
+      · simp only [hu, if_true] at hok
+        by_cases h1 : vcap ≥ min (len + k + off) (W - 1)
+        · simp only [h1, if_true, pure_apply] at hok
+          obtain ⟨hh, _⟩ := R.ok.inj hok
+          obtain ⟨rfl, _⟩ := Prod.mk.inj hh
+          exact .inl rfl
+        · simp only [h1, if_false] at hok
+          by_cases h2 : vcap ≥ len + k ∧ off ≥ len
+          · simp only [h2, and_self, if_true, bind_apply] at hok
+            cases hcw : copyWithin reg off 0 len s1 with
+            | panic s2 => rw [hcw] at hok; cases hok
+            | ub w s2 => rw [hcw] at hok; cases hok
+            | ok u s2 =>
+              rw [hcw] at hok
+              simp only [pure_apply] at hok
+              obtain ⟨hh, _⟩ := R.ok.inj hok
+              obtain ⟨rfl, _⟩ := Prod.mk.inj hh
+              exact .inl rfl
+          · simp only [h2, if_false, Bool.not_true, Bool.false_eq_true] at hok
+            by_cases h3 : len + k + off ≥ W
+            · simp only [h3, if_true, panic_apply] at hok; cases hok
+            · simp only [h3, if_false, bind_apply] at hok
+              cases hd : dassert cfg (decide (off + len ≤ vcap)) s1 with
+              | panic s2 => rw [hd] at hok; cases hok
+              | ub w s2 => rw [hd] at hok; cases hok
+              | ok u s2 =>
+                rw [hd] at hok
+                simp only at hok
+                generalize vecReserve e vreg (off + len) vcap _ s2 = X at hok
+                cases X with
+                | panic s3 => cases hok
+                | ub w s3 => cases hok
+                | ok p s3 =>
+                  simp only [setCtrl_apply, pure_apply, bind_apply] at hok
+                  obtain ⟨hh, _⟩ := R.ok.inj hok
+                  obtain ⟨rfl, _⟩ := Prod.mk.inj hh
+                  exact .inl rfl
+      · simp only [hu, if_false, Bool.not_true, Bool.false_eq_true, bind_apply] at hok
+        cases hr : readRange reg off len s1 with
+        | panic s2 => rw [hr] at hok; cases hok
+        | ub w s2 => rw [hr] at hok; cases hok
+        | ok bs s2 =>
+          rw [hr] at hok
+          simp only at hok
+          generalize vecNew e bs _ s2 = X at hok
+          cases X with
+          | panic s3 => cases hok
+          | ub w s3 => cases hok
+          | ok p s3 =>
+            simp only at hok
+            cases hrl : releaseCtrl c s3 with
+            | panic s4 => rw [hrl] at hok; cases hok
+            | ub w s4 => rw [hrl] at hok; cases hok
+            | ok u s4 =>
+              rw [hrl] at hok
+              simp only [pure_apply] at hok
+              obtain ⟨hh, _⟩ := R.ok.inj hok
+              obtain ⟨rfl, _⟩ := Prod.mk.inj hh
+              exact .inr rfl
+
+/-- `extend_from_slice` keeps a KIND_ARC handle on its block or moves it to a fresh KIND_VEC vector -/
+theorem mutExtend_arc_shape (cfg : Cfg) (e : Env) {c : Nat} {reg : Option Nat} {off len cap orig : Nat}
+    {bs : List Byte} {s s' : St} {h' : Handle}
+    (hok : mutExtend cfg e (.mut (some c) reg off len cap orig) bs s = .ok h' s') :
+    arcOf h' = some c ∨ arcOf h' = none := by
+  simp only [mutExtend, bind_apply] at hok
+  cases hm : mutReserve cfg e (.mut (some c) reg off len cap orig) bs.length s with
+  | panic s1 => rw [hm] at hok; cases hok
+  | ub w s1 => rw [hm] at hok; cases hok
+  | ok h1 s1 =>
+    rw [hm] at hok
+    have hs1 : arcOf h1 = some c ∨ arcOf h1 = none := by
+      simp only [mutReserve] at hm
+      by_cases hk : bs.length ≤ cap - len
+      · rw [if_pos hk] at hm
+        obtain ⟨rfl, _⟩ := R.ok.inj hm
+        exact .inl rfl
+      · rw [if_neg hk] at hm
+        simp only [bind_apply] at hm
+        cases hin : mutReserveInner cfg e (.mut (some c) reg off len cap orig) bs.length true s with
+        | panic s2 => rw [hin] at hm; cases hm
+        | ub w s2 => rw [hin] at hm; cases hm
+        | ok p s2 =>
+          obtain ⟨h2, b⟩ := p
+          rw [hin] at hm
+          simp only [pure_apply] at hm
+          obtain ⟨rfl, _⟩ := R.ok.inj hm
+          exact mutReserveInner_arc_shape cfg e hin
+    cases h1 with
+    | bytes _ _ _ _ => simp only [panic_apply] at hok; cases hok
+    | vec _ _ _ => simp only [panic_apply] at hok; cases hok
+    | «mut» arc1 reg1 off1 len1 cap1 orig1 =>
+      simp only at hok
+      by_cases hc : cap1 - len1 < bs.length
+      · rw [if_pos hc] at hok; cases hok
+      · rw [if_neg hc] at hok
+        simp only [bind_apply] at hok
+        cases hd : dassert cfg (decide (cap1 - len1 ≥ bs.length)) s1 with
+        | panic s2 => rw [hd] at hok; cases hok
+        | ub w s2 => rw [hd] at hok; cases hok
+        | ok u s2 =>
+          rw [hd] at hok
+          simp only at hok
+          cases hwr : writeRange reg1 (off1 + len1) bs s2 with
+          | panic s3 => rw [hwr] at hok; cases hok
+          | ub w s3 => rw [hwr] at hok; cases hok
+          | ok u3 s3 =>
+            rw [hwr] at hok
+            simp only [pure_apply] at hok
+            obtain ⟨rfl, _⟩ := R.ok.inj hok
+            exact hs1
+
+/-- unless `reserve` moves the buffer to a fresh vector (which is KIND_VEC) it keeps the parts -/
+theorem reserve_arc_parts (r : Rec) (k : Nat) (h : (Recycle.reserve r k).arc = true) :
+    (Recycle.reserve r k).parts = r.parts := by
+  rcases Recycle.reserve_cases r k with ⟨_, e⟩ | ⟨_, _, _, e⟩ | ⟨_, _, _, e⟩ | ⟨_, _, _, _, e⟩ |
+    ⟨_, _, _, _, _, e⟩ | ⟨_, _, _, _, _, e⟩ | ⟨_, _, _, e⟩
+  all_goals (rw [e] at h ⊢)
+  · cases h
+
+/-- **`Op.unsplit i j` of a part `j` on the same control block that can *not* be merged refines the
+fourth branch of `Recycle.Op.unsplitLast`**: the part does not start at the end of the main handle's
+contents (`ooff ≠ off + len`; e.g. it lies behind spare capacity that the main handle got back), has
+capacity, and the main handle is neither empty nor full.  M1 — like `BytesMut::unsplit` — falls back to
+`extend_from_slice(other)` and then drops the part; `Recycle.step` does `append olen` and then
+`parts - 1`.  If the copy does not fit the spare capacity, the part being alive forces a fresh
+allocation in both models.  (For a part elsewhere the other three branches of `unsplitLast` are *not*
+what M1 does in general: with `len = 0` the main handle takes over the part's offset `ooff`, which the
+recycling model — told only `(olen, ocap)` — takes to be `off`; with `len = cap` M1 still copies where
+the model merges.  Hence the hypotheses `hl0`, `hnf`.) -/
+theorem step_unsplit_copy_refines (cfg : Cfg) (e : Env) {s s' : St} (hw : WFx s) {i j c : Nat} {v : Val}
+    {reg : Option Nat} {off len cap orig ooff olen ocap oorig : Nat}
+    (hi : s.hs[i]? = some (some (.mut (some c) reg off len cap orig))) (r : Rec)
+    (hv : RecView s (.mut (some c) reg off len cap orig) r)
+    (hj : s.hs[j]? = some (some (.mut (some c) reg ooff olen ocap oorig)))
+    (hl0 : len ≠ 0) (hoc : ocap ≠ 0) (hne : ooff ≠ off + len) (hnf : len ≠ cap)
+    (hok : step cfg e (.unsplit i j) s = .ok v s') :
+    Sim s r i s' (Recycle.step r (.unsplitLast olen ocap)) := by
+  have hI := hw.inv
+  simp only [step, bind_apply, ite_apply'] at hok
+  by_cases hij : i = j
+  · simp only [hij, if_true, panic_apply] at hok; cases hok
+  simp only [hij, if_false, bind_apply, getHandle_eq hi, getHandle_eq hj] at hok
+  rw [if_neg hl0, if_neg hoc, if_neg (fun h => hne h.2.1)] at hok
+  -- the contents of the part
+  obtain ⟨_, _, hrdj⟩ := handleOKL_mutA.mp (hI.hok j _ hj)
+  obtain ⟨bs, hbs⟩ := Option.isSome_iff_exists.mp hrdj
+  have hbl : bs.length = olen := rdL_length hI.regs hbs
+  simp only [bind_apply, readRange_of_rdL hbs, killHandle_apply] at hok
+  -- the record and the count of the block
+  obtain ⟨vreg, vlen, vcap, vorig, rc, he, ra, ro, rl, rcp, rorig, rA, rp⟩ := RecView_arc.mp hv
+  obtain ⟨hrc, hrc1, _⟩ := hI.cok c _ he rfl
+  simp only at hrc hrc1
+  have hne1 : rc ≠ 1 := by
+    intro h1
+    exact hij (refCountL_unique (by rw [← hrc, h1]) hj rfl hi rfl)
+  have hi' : (s.hs.set j none)[i]? = some (some (.mut (some c) reg off len cap orig)) := by
+    rw [lookup_set_ne _ (Ne.symm hij)]; exact hi
+  rw [rstep_unsplitLast_copy r olen ocap (by omega) hoc (by omega), ← hbl]
+  -- `extend_from_slice` in the state where slot `j` is already gone
+  have hW : WInv { s with hs := s.hs.set j none } (.mut (some c) reg off len cap orig) :=
+    (winv_of_inv hI hi).congr rfl rfl rfl
+  have hvk : RecView { s with hs := s.hs.set j none } (.mut (some c) reg off len cap orig) r := hv
+  cases hm : mutExtend cfg e (.mut (some c) reg off len cap orig) bs { s with hs := s.hs.set j none } with
+  | ub w sx => rw [hm] at hok; cases hok
+  | panic sx =>
+    rw [hm] at hok
+    simp only [bind_apply, mutDrop] at hok
+    cases hrl : releaseCtrl c sx with
+    | ok u sy => rw [hrl] at hok; cases hok
+    | panic sy => rw [hrl] at hok; cases hok
+    | ub w sy => rw [hrl] at hok; cases hok
+  | ok h' sx =>
+    rw [hm] at hok
+    obtain ⟨e1, e2, e3⟩ := extend_refines_w cfg e hW bs r hvk h' sx hm
+    have hsh := mutExtend_arc_shape cfg e hm
+    simp only [bind_apply, setHandle_apply, mutDrop] at hok
+    cases hrl : releaseCtrl c { sx with hs := sx.hs.set i (some h') } with
+    | panic sy => rw [hrl] at hok; cases hok
+    | ub w sy => rw [hrl] at hok; cases hok
+    | ok u sy =>
+      rw [hrl] at hok
+      simp only [pure_apply] at hok
+      obtain ⟨_, rfl⟩ := R.ok.inj hok
+      obtain ⟨f1, f2, f3⟩ := releaseCtrl_frame hrl
+      have hlook : sy.hs[i]? = some (some h') := by
+        rw [f1]
+        show (sx.hs.set i (some h'))[i]? = some (some h')
+        rw [e1]; exact lookup_set_eq _ hi'
+      refine ⟨h', hlook, ?_, by rw [f2]; exact e3⟩
+      obtain ⟨arc', reg', off', len', cap', orig', rfl⟩ := RecView.is_mut (s := sx) e2
+      cases arc' with
+      | none =>
+        -- moved to a fresh vector: whatever `release` did to the old block does not matter
+        obtain ⟨qa, qo, ql, qc, qorig, qA, qp⟩ := e2
+        exact ⟨qa, qo, ql, qc, qorig, by rw [f3]; exact qA, by show _ - 1 = 0; rw [qp]⟩
+      | some c1 =>
+        have hc1 : c1 = c := by
+          rcases hsh with h | h
+          · exact (Option.some.inj h)
+          · cases h
+        obtain ⟨vreg', vlen', vcap', vorig', rc', he', qa, qo, ql, qc, qorig, qA, qp⟩ := e2
+        rw [hc1] at he'
+        have hparts : (Recycle.step r (.append bs.length)).parts = r.parts :=
+          reserve_arc_parts r bs.length qa
+        have hrc' : rc' ≠ 0 ∧ rc' ≠ 1 := by rw [hparts, rp] at qp; omega
+        have hrel := releaseCtrl_dec
+          (s := { sx with hs := sx.hs.set i (some (.mut (some c1) reg' off' len' cap' orig')) })
+          he' rfl hrc'.1 hrc'.2
+        rw [hrel] at hrl
+        obtain ⟨_, rfl⟩ := R.ok.inj hrl
+        rw [hc1]
+        exact ⟨vreg', vlen', vcap', vorig', rc' - 1, lookup_set_eq _ he', qa, qo, ql, qc, qorig, qA,
+          by show _ - 1 = rc' - 1 - 1; rw [qp]⟩
+
+/-! ## 9. freeze and back: `roundTrip` -/
+
+/-- **The auxiliary view of a frozen main handle**: relates the `Bytes` handle that `freeze()` made of
+the main handle to the record `r` the main handle had *before* the freeze.  A frozen KIND_ARC handle
+(`SHARED_VTABLE` of bytes_mut.rs) has forgotten its capacity; a frozen KIND_VEC handle is promotable
+(`len = cap`: it still owns its allocation, the `original_capacity_repr` is forgotten), lives on a fresh
+`Shared { buf, cap, ref_cnt: 1 }` of bytes.rs (`len ≠ cap`), or is the static empty `Bytes`
+(no allocation). -/
+def FrozenViewL (R : List Region) (C : List CtrlE) (h : Handle) (r : Rec) : Prop :=
+  match h with
+  | .bytes (.sharedV c) _ off len =>
+    ∃ vreg vlen vcap vorig rc, C[c]? = some ⟨.sharedV vreg vlen vcap vorig, rc, true⟩ ∧
+      r.arc = true ∧ r.off = off ∧ r.len = len ∧ r.orig = vorig ∧ r.A = vcap ∧ r.parts = rc - 1
+  | .bytes (.prom _ none) reg off len =>
+    r.arc = false ∧ r.off = off ∧ r.len = len ∧ r.cap = len ∧ r.A = bufSizeL R reg ∧ r.A ≠ 0 ∧
+      r.parts = 0 ∧ off ≤ maxVecPos
+  | .bytes (.shared c) _ off len =>
+    ∃ r0 bcap, C[c]? = some ⟨.sharedB r0 bcap, 1, true⟩ ∧
+      r.arc = false ∧ r.off = off ∧ r.len = len ∧ r.len < r.cap ∧ off + r.cap = bcap ∧ r.A = bcap ∧
+      r.parts = 0 ∧ off ≤ maxVecPos
+  | .bytes .static reg off len =>
+    reg = none ∧ off = 0 ∧ len = 0 ∧
+      r.arc = false ∧ r.off = 0 ∧ r.len = 0 ∧ r.cap = 0 ∧ r.A = 0 ∧ r.parts = 0
+  | _ => False
+
+def FrozenView (s : St) (h : Handle) (r : Rec) : Prop := FrozenViewL s.regions s.ctrls h r
+
+theorem FrozenView.is_bytes {s : St} {h : Handle} {r : Rec} (hv : FrozenView s h r) :
+    ∃ repr reg off len, h = .bytes repr reg off len := by
+  cases h with
+  | bytes repr reg off len => exact ⟨_, _, _, _, rfl⟩
+  | vec _ _ _ => exact hv.elim
+  | «mut» arc reg off len cap orig => exact hv.elim
+
+/-! ### `Recycle.step _ .roundTrip`, branch by branch -/
+
+theorem rstep_roundTrip_copy (r : Rec) (hp : r.parts ≠ 0) :
+    Recycle.step r .roundTrip =
+      { r with A := r.len, off := 0, cap := r.len, arc := false, orig := Recycle.origRepr r.len, parts := 0,
+               pinned := r.A :: r.pinned, allocs := if r.len = 0 then r.allocs else r.allocs + 1 } := by
+  simp [Recycle.step, hp]
+
+theorem rstep_roundTrip_vec (r : Rec) (hp : r.parts = 0) (ha : r.arc = false) :
+    Recycle.step r .roundTrip = { r with orig := Recycle.origRepr r.A } := by
+  simp [Recycle.step, hp, ha]
+
+theorem rstep_roundTrip_arc (r : Rec) (hp : r.parts = 0) (ha : r.arc = true) :
+    Recycle.step r .roundTrip = { r with cap := r.A - r.off } := by
+  simp [Recycle.step, hp, ha]
+
+/-! ### first half: `freeze` -/
+
+/-- **`Op.freeze i` of the main handle** leads to a well-formed state in which slot `i` holds a `Bytes`
+handle that is a frozen view of the same record; no byte buffer is allocated (a `Shared` header may be). -/
+theorem step_freeze_view (cfg : Cfg) (e : Env) {s s1 : St} (hw : WFx s) {i : Nat} {v : Val}
+    {arc reg : Option Nat} {off len cap orig : Nat}
+    (hi : s.hs[i]? = some (some (.mut arc reg off len cap orig))) (r : Rec)
+    (hv : RecView s (.mut arc reg off len cap orig) r)
+    (hok : step cfg e (.freeze i) s = .ok v s1) :
+    WFx s1 ∧ ∃ hb, s1.hs[i]? = some (some hb) ∧ FrozenView s1 hb r ∧
+      allocCount s1.events = allocCount s.events := by
+  refine ⟨Example.WFx_step hw hok trivial, ?_⟩
+  have hI := hw.inv
+  have hok0 := hI.hok i _ hi
+  simp only [step, bind_apply, getHandle_eq hi] at hok
+  cases arc with
+  | some c =>
+    simp only [bind_apply, setHandle_apply, pure_apply] at hok
+    obtain ⟨_, rfl⟩ := R.ok.inj hok
+    obtain ⟨vreg, vlen, vcap, vorig, rc, he, ra, ro, rl, rcp, rorig, rA, rp⟩ := RecView_arc.mp hv
+    exact ⟨_, lookup_set_eq _ hi, ⟨vreg, vlen, vcap, vorig, rc, he, ra, ro, rl, rorig, rA, rp⟩, rfl⟩
+  | none =>
+    obtain ⟨hlc, hoffb, hregc, hrd⟩ := handleOKL_mutV.mp hok0
+    obtain ⟨ra, ro, rl, rcp, rorig, rA, rp⟩ := RecView_vec.mp hv
+    simp only [bind_apply, bytesFromVec] at hok
+    by_cases hlc' : len = cap
+    · subst hlc'
+      simp only [if_true] at hok
+      by_cases h0 : off + len = 0
+      · have ho : off = 0 := by omega
+        have hl : len = 0 := by omega
+        subst ho hl
+        have hreg0 : reg = none := by
+          cases reg with
+          | none => rfl
+          | some r0 =>
+            simp only at hregc
+            have := heap_size_pos hI.regs hregc.1
+            omega
+        subst hreg0
+        simp only [if_true, pure_apply, Nat.lt_irrefl, gt_iff_lt, if_false, bind_apply,
+          setHandle_apply, Nat.add_zero, Nat.sub_self] at hok
+        obtain ⟨_, rfl⟩ := R.ok.inj hok
+        exact ⟨_, lookup_set_eq _ hi, ⟨rfl, rfl, rfl, ra, ro, rl, rcp, by simpa [bufSizeL] using rA, rp⟩, rfl⟩
+      · cases reg with
+        | none => simp only at hregc; omega
+        | some r0 =>
+          simp only at hregc
+          have hng : ¬ off > off + len := by omega
+          simp only [h0, if_false, bind_apply, regionOdd_eq hregc.1, pure_apply, hng,
+            setHandle_apply, Nat.zero_add, Nat.add_sub_cancel_left] at hok
+          obtain ⟨_, rfl⟩ := R.ok.inj hok
+          refine ⟨_, lookup_set_eq _ hi, ⟨ra, ro, rl, rcp, rA, ?_, rp, hoffb⟩, rfl⟩
+          rw [rA]; simp only [bufSizeL]; omega
+    · have hne : ¬ off + len = off + cap := by omega
+      cases reg with
+      | none => simp only at hregc; omega
+      | some r0 =>
+        simp only at hregc
+        have hng : ¬ off > off + len := by omega
+        simp only [hne, if_false, bind_apply, newCtrl_apply, pure_apply, hng, setHandle_apply,
+          Nat.zero_add, Nat.add_sub_cancel_left] at hok
+        obtain ⟨_, rfl⟩ := R.ok.inj hok
+        refine ⟨_, lookup_set_eq _ hi, ⟨r0, off + cap, lookup_append_new _ _, ra, ro, rl, ?_, ?_, ?_, rp,
+          hoffb⟩, by simp [allocCount, List.countP_cons, isAlloc]⟩
+        · rw [rl, rcp]; omega
+        · rw [rcp]
+        · rw [rA]; simp only [bufSizeL]; omega
+
+/-! ### second half: the conversion back -/
+
+/-- what the conversions conclude about the outcome `m`, `s2` of `bytesIntoMut` in state `s1` -/
+def ConclRT (s1 : St) (r : Rec) (m : Handle) (s2 : St) : Prop :=
+  s2.hs = s1.hs ∧ RecViewL s2.regions s2.ctrls m (Recycle.step r .roundTrip) ∧
+  allocCount s2.events + r.allocs = allocCount s1.events + (Recycle.step r .roundTrip).allocs
+
+/-- **`bytesIntoMut` (the vtable's `to_mut`, i.e. `BytesMut::from(Bytes)`) on a frozen main handle
+refines `Recycle.Op.roundTrip`**, branch by branch: unique `shared_v_to_mut` hands back everything
+behind the offset; a shared one is copied into a fresh exact-size vector; `promotable_to_mut` and
+`shared_to_mut_impl` rebuild the KIND_VEC handle over the whole allocation and re-record
+`original_capacity_repr`; the static empty handle becomes a fresh empty `BytesMut`. -/
+theorem intoMut_refines (cfg : Cfg) (e : Env) {s1 : St} (hI : Inv s1) {i : Nat} {hb : Handle}
+    (hi : s1.hs[i]? = some (some hb)) (r : Rec) (hv : FrozenView s1 hb r) {m : Handle} {s2 : St}
+    (hok : bytesIntoMut cfg e hb s1 = .ok m s2) : ConclRT s1 r m s2 := by
+  unfold ConclRT
+  obtain ⟨repr, reg, off, len, rfl⟩ := hv.is_bytes
+  have hok0 := hI.hok i _ hi
+  cases repr with
+  | owned c => exact hv.elim
+  | «static» =>
+    obtain ⟨rfl, rfl, rfl, ra, ro, rl, rcp, rA, rp⟩ := hv
+    have h1 : bytesIntoMut cfg e (.bytes .static none 0 0) s1 =
+        .ok (.mut none none 0 0 0 (originalCapacityToRepr 0)) s1 := by
+      simp [bytesIntoMut, toVecCopy, readRange, vecNew_zero, mutFromVec]
+    rw [h1] at hok
+    obtain ⟨rfl, rfl⟩ := R.ok.inj hok
+    rw [rstep_roundTrip_vec r rp ra]
+    exact ⟨rfl, ⟨ra, ro, rl, rcp, by show Recycle.origRepr r.A = _; rw [rA]; rfl, by simpa [bufSizeL] using rA, rp⟩,
+      rfl⟩
+  | prom vt oc =>
+    cases oc with
+    | some c => exact hv.elim
+    | none =>
+      obtain ⟨ra, ro, rl, rcp, rA, rA0, rp, hpos⟩ := hv
+      obtain ⟨⟨r0, hreg', hlive, hsz, hvt⟩, _⟩ := handleOKL_promV.mp hok0
+      subst hreg'
+      have hA : r.A = off + len := by rw [rA]; simp only [bufSizeL]; omega
+      rcases mutAdvance_from_zero cfg (reg := some r0) (len := off + len) (cap := off + len)
+          (orig := originalCapacityToRepr (off + len)) (k := off) (by omega) s1 with
+        ⟨_, hadv⟩ | ⟨hp, _⟩
+      · have h1 : bytesIntoMut cfg e (.bytes (.prom vt none) (some r0) off len) s1 =
+            .ok (.mut none (some r0) off (off + len - off) (off + len - off)
+              (originalCapacityToRepr (off + len))) s1 := by
+          simp [bytesIntoMut, promDecode_eq hlive hvt, mutFromVec, hadv]
+        rw [h1] at hok
+        obtain ⟨rfl, rfl⟩ := R.ok.inj hok
+        rw [rstep_roundTrip_vec r rp ra]
+        refine ⟨rfl, ⟨ra, ro, by show r.len = off + len - off; omega, by show r.cap = off + len - off; omega,
+          by show Recycle.origRepr r.A = _; rw [hA]; rfl, rA, rp⟩, rfl⟩
+      · exact absurd hpos hp
+  | shared c =>
+    obtain ⟨r0, bcap, he, ra, ro, rl, rne, rcp, rA, rp, hpos⟩ := hv
+    obtain ⟨⟨r0', cap', h1', hreg', hb'⟩, _⟩ := handleOKL_shared.mp hok0
+    have hlv : liveCtrlL s1.ctrls c = some (.sharedB r0 bcap) := liveCtrlL_of he rfl
+    rw [hlv] at h1'
+    obtain ⟨rfl, rfl⟩ : r0 = r0' ∧ bcap = cap' := by simpa using h1'
+    subst hreg'
+    obtain ⟨_, _, _, _, _, _, hbuf⟩ := hI.cok' hlv
+    simp only [ctrlBufOK] at hbuf
+    rcases mutAdvance_from_zero cfg (reg := some r0) (len := len + off) (cap := bcap)
+        (orig := originalCapacityToRepr bcap) (k := off) (by omega)
+        { s1 with ctrls := s1.ctrls.set c ⟨.sharedB r0 bcap, 0, false⟩,
+                  events := .deallocCtrl c :: s1.events } with ⟨_, hadv⟩ | ⟨hp, _⟩
+    · have h1 : bytesIntoMut cfg e (.bytes (.shared c) (some r0) off len) s1 =
+          .ok (.mut none (some r0) off (len + off - off) (bcap - off) (originalCapacityToRepr bcap))
+            { s1 with ctrls := s1.ctrls.set c ⟨.sharedB r0 bcap, 0, false⟩,
+                      events := .deallocCtrl c :: s1.events } := by
+        simp [bytesIntoMut, ctrlIsUnique_eq he rfl, takeSharedB_eq he rfl rfl, mutFromVec, hadv]
+      rw [h1] at hok
+      obtain ⟨rfl, rfl⟩ := R.ok.inj hok
+      rw [rstep_roundTrip_vec r rp ra]
+      refine ⟨rfl, ⟨ra, ro, by show r.len = len + off - off; omega, by show r.cap = bcap - off; omega,
+        by show Recycle.origRepr r.A = _; rw [rA]; rfl, ?_, rp⟩,
+        by simp [allocCount, List.countP_cons, isAlloc]⟩
+      show r.A = bufSizeL s1.regions (some r0)
+      simp only [bufSizeL]; omega
+    · exact absurd hpos hp
+  | sharedV c =>
+    obtain ⟨vreg, vlen, vcap, vorig, rc, he, ra, ro, rl, rorig, rA, rp⟩ := hv
+    obtain ⟨⟨vlen', vcap', vorig', h1', hb'⟩, hrd⟩ := handleOKL_sharedV.mp hok0
+    have hlv : liveCtrlL s1.ctrls c = some (.sharedV vreg vlen vcap vorig) := liveCtrlL_of he rfl
+    rw [hlv] at h1'
+    obtain ⟨rfl, rfl, rfl, rfl⟩ : vreg = reg ∧ vlen = vlen' ∧ vcap = vcap' ∧ vorig = vorig' := by
+      simpa using h1'
+    obtain ⟨hrc, hrc1, _⟩ := hI.cok c _ he rfl
+    simp only at hrc hrc1
+    by_cases hu : rc = 1
+    · subst hu
+      have h1 : bytesIntoMut cfg e (.bytes (.sharedV c) vreg off len) s1 =
+          .ok (.mut (some c) vreg off len (vcap - off) vorig) s1 := by
+        simp [bytesIntoMut, ctrlIsUnique_eq he rfl, getCtrl_eq he rfl]
+      rw [h1] at hok
+      obtain ⟨rfl, rfl⟩ := R.ok.inj hok
+      have rp0 : r.parts = 0 := by rw [rp]
+      rw [rstep_roundTrip_arc r rp0 ra]
+      exact ⟨rfl, ⟨vreg, vlen, vcap, vorig, 1, he, ra, ro, rl, by show r.A - r.off = vcap - off; rw [rA, ro],
+        rorig, rA, rp⟩, rfl⟩
+    · have rp1 : r.parts ≠ 0 := by rw [rp]; omega
+      have hu' : (rc == 1) = false := by simpa using hu
+      obtain ⟨bs, hbs⟩ := Option.isSome_iff_exists.mp hrd
+      rw [rstep_roundTrip_copy r rp1]
+      have hexec : bytesIntoMut cfg e (.bytes (.sharedV c) vreg off len) s1 =
+          match toVecCopy e vreg off len s1 with
+          | .ok x sx =>
+            (match releaseCtrl c sx with
+             | .ok _ sy => (match x with | .vec r0 l cp => pure (mutFromVec r0 l cp) | _ => panic) sy
+             | .panic sy => .panic sy
+             | .ub w sy => .ub w sy)
+          | .panic sx => .panic sx
+          | .ub w sx => .ub w sx := by
+        simp only [bytesIntoMut, bind_apply, ctrlIsUnique_eq he rfl, hu', Bool.false_eq_true, if_false]
+        cases toVecCopy e vreg off len s1 with
+        | ok x sx => simp only []; cases releaseCtrl c sx <;> rfl
+        | panic sx => rfl
+        | ub w sx => rfl
+      rw [hexec] at hok
+      rcases toVecCopy_cases e hbs with ⟨hl0, hq⟩ | hq | ⟨hl0, hle, hq⟩
+      · subst hl0
+        have hrel := releaseCtrl_dec (s := s1) he rfl (by simp only; omega) hu
+        simp only [hq, hrel, pure_apply, mutFromVec] at hok
+        obtain ⟨rfl, rfl⟩ := R.ok.inj hok
+        refine ⟨rfl, ⟨rfl, rfl, rl, rl, by show Recycle.origRepr r.len = _; rw [rl]; rfl,
+          by show r.len = bufSizeL _ none; rw [rl]; rfl, rfl⟩, ?_⟩
+        show _ = _ + (if r.len = 0 then r.allocs else r.allocs + 1)
+        rw [if_pos rl]
+      · rw [hq] at hok; cases hok
+      · have hrel := releaseCtrl_dec
+          (s := ⟨s1.regions ++ [vecRegion bs len (e.odd s1.regions.length)], s1.ctrls, s1.hs, s1.owners,
+            .alloc s1.regions.length len :: s1.events⟩) he rfl (by simp only; omega) hu
+        simp only [hq, hrel, pure_apply, mutFromVec] at hok
+        obtain ⟨rfl, rfl⟩ := R.ok.inj hok
+        refine ⟨rfl, ⟨rfl, rfl, rl, rl, by show Recycle.origRepr r.len = _; rw [rl]; rfl, ?_, rfl⟩, ?_⟩
+        · show r.len = bufSizeL _ (some s1.regions.length)
+          simp [bufSizeL, regionSizeL_new, vecRegion, rl]
+        · show _ = _ + (if r.len = 0 then r.allocs else r.allocs + 1)
+          rw [if_neg (by omega)]; simp only [allocCount_alloc]; omega
+
+/-- **`Op.intoMut i` (`BytesMut::from(Bytes)`) on the frozen main handle refines
+`Recycle.Op.roundTrip`** (all three branches of the recycling model; no side condition) -/
+theorem step_intoMut_refines (cfg : Cfg) (e : Env) {s1 s2 : St} (hw1 : WFx s1) {i : Nat} {v : Val}
+    {hb : Handle} (hi : s1.hs[i]? = some (some hb)) (r : Rec) (hv : FrozenView s1 hb r)
+    (hok : step cfg e (.intoMut i) s1 = .ok v s2) :
+    Sim s1 r i s2 (Recycle.step r .roundTrip) := by
+  obtain ⟨repr, reg, off, len, rfl⟩ := hv.is_bytes
+  simp only [step, bind_apply, getHandle_eq hi] at hok
+  cases hm : bytesIntoMut cfg e (.bytes repr reg off len) s1 with
+  | ok m sm =>
+    rw [hm] at hok
+    simp only [setHandle_apply, pure_apply] at hok
+    obtain ⟨_, rfl⟩ := R.ok.inj hok
+    obtain ⟨e1, e2, e3⟩ := intoMut_refines cfg e hw1.inv hi r hv hm
+    refine ⟨m, ?_, e2, e3⟩
+    show (sm.hs.set i (some m))[i]? = some (some m)
+    rw [e1]; exact lookup_set_eq _ hi
+  | panic sm => rw [hm] at hok; cases hok
+  | ub w sm => rw [hm] at hok; cases hok
+
+/-- `Bytes::is_unique` on the frozen main handle: unique iff nobody else is on the allocation and there
+is an allocation (the static empty `Bytes` is never unique) -/
+theorem frozen_isUnique {s1 : St} (hI : Inv s1) {hb : Handle} (r : Rec) (hv : FrozenView s1 hb r) :
+    bytesIsUnique hb s1 = .ok (decide (r.parts = 0 ∧ (r.arc = true ∨ r.A ≠ 0))) s1 := by
+  obtain ⟨repr, reg, off, len, rfl⟩ := hv.is_bytes
+  cases repr with
+  | owned c => exact hv.elim
+  | «static» =>
+    obtain ⟨_, _, _, ra, _, _, _, rA, rp⟩ := hv
+    simp [bytesIsUnique, rA, ra]
+  | prom vt oc =>
+    cases oc with
+    | some c => exact hv.elim
+    | none =>
+      obtain ⟨ra, ro, rl, rcp, rA, rA0, rp, hpos⟩ := hv
+      simp [bytesIsUnique, rA0, rp]
+  | shared c =>
+    obtain ⟨r0, bcap, he, ra, ro, rl, rne, rcp, rA, rp, hpos⟩ := hv
+    have : r.A ≠ 0 := by omega
+    simp [bytesIsUnique, ctrlIsUnique_eq he rfl, this, rp]
+  | sharedV c =>
+    obtain ⟨vreg, vlen, vcap, vorig, rc, he, ra, ro, rl, rorig, rA, rp⟩ := hv
+    simp only [bytesIsUnique, ctrlIsUnique_eq he rfl]
+    by_cases h1 : rc = 1
+    · subst h1; simp [rp, ra]
+    · have := (hI.cok c _ he rfl).2.1
+      simp only at this
+      have hp : r.parts ≠ 0 := by omega
+      simp [h1, hp]
+
+/-- **`Op.tryIntoMut i` (`Bytes::try_into_mut`) on the frozen main handle**: it succeeds exactly when no
+part is alive and there is something to be unique about (`is_unique` of the static empty `Bytes` — a
+frozen KIND_VEC handle without allocation — is `false`), and then refines `Recycle.Op.roundTrip`;
+otherwise it hands the `Bytes` back (`Err(self)`) and nothing changes. -/
+theorem step_tryIntoMut_refines (cfg : Cfg) (e : Env) {s1 s2 : St} (hw1 : WFx s1) {i : Nat} {v : Val}
+    {hb : Handle} (hi : s1.hs[i]? = some (some hb)) (r : Rec) (hv : FrozenView s1 hb r)
+    (hok : step cfg e (.tryIntoMut i) s1 = .ok v s2) :
+    (r.parts = 0 ∧ (r.arc = true ∨ r.A ≠ 0) ∧ v = .handle i ∧ Sim s1 r i s2 (Recycle.step r .roundTrip)) ∨
+    (¬ (r.parts = 0 ∧ (r.arc = true ∨ r.A ≠ 0)) ∧ v = .err i ∧ s2 = s1) := by
+  simp only [step, bind_apply, getHandle_eq hi, frozen_isUnique hw1.inv r hv] at hok
+  by_cases hu : r.parts = 0 ∧ (r.arc = true ∨ r.A ≠ 0)
+  · left
+    rw [decide_eq_true hu] at hok
+    simp only [↓reduceIte, bind_apply] at hok
+    obtain ⟨repr, reg, off, len, rfl⟩ := hv.is_bytes
+    cases hm : bytesIntoMut cfg e (.bytes repr reg off len) s1 with
+    | ok m sm =>
+      rw [hm] at hok
+      simp only [setHandle_apply, pure_apply] at hok
+      obtain ⟨rfl, rfl⟩ := R.ok.inj hok
+      obtain ⟨e1, e2, e3⟩ := intoMut_refines cfg e hw1.inv hi r hv hm
+      refine ⟨hu.1, hu.2, rfl, m, ?_, e2, e3⟩
+      show (sm.hs.set i (some m))[i]? = some (some m)
+      rw [e1]; exact lookup_set_eq _ hi
+    | panic sm => rw [hm] at hok; cases hok
+    | ub w sm => rw [hm] at hok; cases hok
+  · right
+    rw [decide_eq_false hu] at hok
+    simp only [Bool.false_eq_true, ↓reduceIte, pure_apply] at hok
+    obtain ⟨rfl, rfl⟩ := R.ok.inj hok
+    exact ⟨hu, rfl, rfl⟩
+
+/-- **The round trip refines `Recycle.Op.roundTrip`**: `Op.freeze i` followed by `Op.intoMut i`
+(`BytesMut::from(m.freeze())`), or by an `Op.tryIntoMut i` that succeeds (returns the handle rather
+than `Err`), leads to a well-formed state whose main handle is related to
+`Recycle.step r .roundTrip`; the byte-buffer allocations recorded are the increase of `allocs`. -/
+theorem step_roundTrip_refines (cfg : Cfg) (e : Env) {s s1 s2 : St} (hw : WFx s) {i : Nat} {v1 v2 : Val}
+    {h : Handle} (hi : s.hs[i]? = some (some h)) (r : Rec) (hv : RecView s h r) {mop : Op}
+    (hmop : mop = .intoMut i ∨ (mop = .tryIntoMut i ∧ v2 = .handle i))
+    (hf : step cfg e (.freeze i) s = .ok v1 s1) (hm : step cfg e mop s1 = .ok v2 s2) :
+    WFx s2 ∧ Sim s r i s2 (Recycle.step r .roundTrip) := by
+  obtain ⟨arc, reg, off, len, cap, orig, rfl⟩ := RecView.is_mut hv
+  obtain ⟨hw1, hb, hi1, hv1, ha1⟩ := step_freeze_view cfg e hw hi r hv hf
+  have hw2 : WFx s2 := by
+    rcases hmop with rfl | ⟨rfl, _⟩
+    · exact Example.WFx_step hw1 hm trivial
+    · exact Example.WFx_step hw1 hm trivial
+  refine ⟨hw2, ?_⟩
+  have key : Sim s1 r i s2 (Recycle.step r .roundTrip) := by
+    rcases hmop with rfl | ⟨rfl, rfl⟩
+    · exact step_intoMut_refines cfg e hw1 hi1 r hv1 hm
+    · rcases step_tryIntoMut_refines cfg e hw1 hi1 r hv1 hm with ⟨_, _, _, h4⟩ | ⟨_, h2, _⟩
+      · exact h4
+      · cases h2
+  obtain ⟨h', hi', hv', ha'⟩ := key
+  exact ⟨h', hi', hv', by omega⟩
+
+/-- **What was wrong with the recycling model's `roundTrip`** (repaired in Model/Recycle.lean).  For a
+KIND_VEC handle the model used to keep `orig` when `len = cap` ("promotable") and to re-record it only
+otherwise.  M1 — like `promotable_to_mut` and `shared_to_mut_impl` of bytes.rs, which both end in
+`BytesMut::from_vec(Vec::from_raw_parts(buf, _, cap))` — re-records `original_capacity_repr` from the
+full capacity of the allocation in *both* cases: after the round trip of any KIND_VEC main handle, full
+or not, the handle carries `original_capacity_to_repr(off + cap)`.  (The old model therefore disagreed
+with M1 on `orig` whenever a full KIND_VEC handle had grown since its creation; the difference becomes
+visible in the size of the next allocation made with live parts, see the examples at the end of
+Props/C18.lean.) -/
+theorem roundTrip_rerecords_orig (cfg : Cfg) (e : Env) {s s1 s2 : St} (hw : WFx s) {i : Nat} {v1 v2 : Val}
+    {reg : Option Nat} {off len cap orig : Nat}
+    (hi : s.hs[i]? = some (some (.mut none reg off len cap orig))) {mop : Op}
+    (hmop : mop = .intoMut i ∨ (mop = .tryIntoMut i ∧ v2 = .handle i))
+    (hf : step cfg e (.freeze i) s = .ok v1 s1) (hm : step cfg e mop s1 = .ok v2 s2) :
+    ∃ reg', s2.hs[i]? = some (some (.mut none reg' off len cap (originalCapacityToRepr (off + cap)))) := by
+  obtain ⟨r, hr⟩ : ∃ r : Rec, r = ⟨bufSizeL s.regions reg, off, len, cap, false, orig, 0, [], 0⟩ := ⟨_, rfl⟩
+  have hv : RecView s (.mut none reg off len cap orig) r := by subst hr; exact ⟨rfl, rfl, rfl, rfl, rfl, rfl, rfl⟩
+  obtain ⟨hA, hR⟩ := RecView.layout hw.inv hi hv
+  have hex := hR.vec_exact (by subst hr; rfl)
+  obtain ⟨_, h', hi', hv', _⟩ := step_roundTrip_refines cfg e hw hi r hv hmop hf hm
+  rw [rstep_roundTrip_vec r (by subst hr; rfl) (by subst hr; rfl)] at hv'
+  obtain ⟨arc', reg', off', len', cap', orig', rfl⟩ := RecView.is_mut hv'
+  cases arc' with
+  | some c =>
+    obtain ⟨_, _, _, _, _, _, ra, _⟩ := RecView_arc.mp hv'
+    subst hr; cases ra
+  | none =>
+    obtain ⟨_, ro, rl, rc, rorig, _, _⟩ := RecView_vec.mp hv'
+    simp only at ro rl rc rorig
+    refine ⟨reg', ?_⟩
+    rw [hi', ← ro, ← rl, ← rc, ← rorig, ← hex]
+    subst hr; rfl
 
 /-! ## chaining the steps along a history -/
 
@@ -665,12 +1468,17 @@ inductive Match (i : Nat) (s : St) (r : Rec) : Recycle.Op → Op → Prop
   | splitOffTail (arc reg : Option Nat) (off len cap orig : Nat)
       (hi : s.hs[i]? = some (some (.mut arc reg off len cap orig))) :
       Match i s r .splitOffTail (.splitOff i len)
-  /-- `j` is a part on the same control block that starts where the contents of the main handle end;
-  if it has no capacity the main handle must be full -/
+  /-- `j` is a part on the same control block that starts where the contents of the main handle end -/
   | unsplitLast (j c : Nat) (reg : Option Nat) (off len cap orig olen ocap oorig : Nat)
       (hi : s.hs[i]? = some (some (.mut (some c) reg off len cap orig)))
-      (hj : s.hs[j]? = some (some (.mut (some c) reg (off + len) olen ocap oorig)))
-      (hfull : ocap = 0 → len = cap) :
+      (hj : s.hs[j]? = some (some (.mut (some c) reg (off + len) olen ocap oorig))) :
+      Match i s r (.unsplitLast olen ocap) (.unsplit i j)
+  /-- `j` is a part on the same control block that does *not* start where the contents of the main handle
+  end and has capacity, the main handle is neither empty nor full: `unsplit` falls back to copying -/
+  | unsplitCopy (j c : Nat) (reg : Option Nat) (off len cap orig ooff olen ocap oorig : Nat)
+      (hi : s.hs[i]? = some (some (.mut (some c) reg off len cap orig)))
+      (hj : s.hs[j]? = some (some (.mut (some c) reg ooff olen ocap oorig)))
+      (hl0 : len ≠ 0) (hoc : ocap ≠ 0) (hne : ooff ≠ off + len) (hnf : len ≠ cap) :
       Match i s r (.unsplitLast olen ocap) (.unsplit i j)
 
 theorem Match.opOK {i : Nat} {s : St} {r : Rec} {rop : Recycle.Op} {mop : Op} (hm : Match i s r rop mop) :
@@ -702,19 +1510,31 @@ theorem step_refines (cfg : Cfg) (e : Env) {s s' : St} (hw : WFx s) {i : Nat} {h
     obtain ⟨rfl, rfl, rfl, rfl, rfl, rfl⟩ : arc = arc' ∧ reg = reg' ∧ off = off' ∧ len = len' ∧
         cap = cap' ∧ orig = orig' := by simpa using hi'
     exact step_splitOffTail_refines cfg e hw hi r hv hok
-  | unsplitLast j c reg' off' len' cap' orig' olen ocap oorig hi' hj hfull =>
+  | unsplitLast j c reg' off' len' cap' orig' olen ocap oorig hi' hj =>
     rw [hi] at hi'
     obtain ⟨rfl, rfl, rfl, rfl, rfl, rfl⟩ : arc = some c ∧ reg = reg' ∧ off = off' ∧ len = len' ∧
         cap = cap' ∧ orig = orig' := by simpa using hi'
-    exact step_unsplitLast_refines cfg e hw hi r hv hj hfull hok
+    exact step_unsplitLast_refines cfg e hw hi r hv hj hok
+  | unsplitCopy j c reg' off' len' cap' orig' ooff olen ocap oorig hi' hj hl0 hoc hne hnf =>
+    rw [hi] at hi'
+    obtain ⟨rfl, rfl, rfl, rfl, rfl, rfl⟩ : arc = some c ∧ reg = reg' ∧ off = off' ∧ len = len' ∧
+        cap = cap' ∧ orig = orig' := by simpa using hi'
+    exact step_unsplit_copy_refines cfg e hw hi r hv hj hl0 hoc hne hnf hok
 
 /-- a successful run of M1 operations from `s` to `s'`, each matched (in the state where it is
-issued) with an operation of the recycling model -/
+issued) with an operation of the recycling model.  `Recycle.Op.roundTrip` is the only operation of the
+recycling model that takes two M1 operations: `Op.freeze i`, then the conversion `mop` listed in the
+history — `Op.intoMut i`, or an `Op.tryIntoMut i` that succeeds. -/
 inductive Run (cfg : Cfg) (e : Env) (i : Nat) : St → Rec → List (Recycle.Op × Op) → St → Prop
   | nil (s : St) (r : Rec) : Run cfg e i s r [] s
   | cons {s s1 s' : St} {r : Rec} {rop : Recycle.Op} {mop : Op} {v : Val} {ps : List (Recycle.Op × Op)}
       (hm : Match i s r rop mop) (hok : step cfg e mop s = .ok v s1)
       (hr : Run cfg e i s1 (Recycle.step r rop) ps s') : Run cfg e i s r ((rop, mop) :: ps) s'
+  | roundTrip {s s1 s2 s' : St} {r : Rec} {mop : Op} {v1 v2 : Val} {ps : List (Recycle.Op × Op)}
+      (hmop : mop = .intoMut i ∨ (mop = .tryIntoMut i ∧ v2 = .handle i))
+      (hf : step cfg e (.freeze i) s = .ok v1 s1) (hok : step cfg e mop s1 = .ok v2 s2)
+      (hr : Run cfg e i s2 (Recycle.step r .roundTrip) ps s') :
+      Run cfg e i s r ((.roundTrip, mop) :: ps) s'
 
 /-- **The simulation along a history**: after any matched run the state is well-formed and the main
 handle is related to `Recycle.run r` of the recycling-model operations; the byte-buffer allocations
@@ -727,6 +1547,12 @@ theorem run_refines (cfg : Cfg) (e : Env) {i : Nat} {s s' : St} {r : Rec} {ps : 
   | nil s r => exact ⟨hw, Sim.refl hi hv⟩
   | cons hm hok hr ih =>
     obtain ⟨hw1, hs1⟩ := step_refines cfg e hw hi _ hv hm hok
+    have hs1' := hs1
+    obtain ⟨h1, hi1, hv1, _⟩ := hs1'
+    obtain ⟨hw', hs'⟩ := ih hw1 hi1 hv1
+    exact ⟨hw', Sim.trans hs1 hs'⟩
+  | roundTrip hmop hf hok hr ih =>
+    obtain ⟨hw1, hs1⟩ := step_roundTrip_refines cfg e hw hi _ hv hmop hf hok
     have hs1' := hs1
     obtain ⟨h1, hi1, hv1, _⟩ := hs1'
     obtain ⟨hw', hs'⟩ := ih hw1 hi1 hv1
@@ -797,9 +1623,10 @@ theorem alloc_size_bounded_M1 (cfg : Cfg) (e : Env) {s0 s s' : St} {A₀ M : Nat
   simp only at ha
   omega
 
-/-! ## the side conditions are needed: where the two models disagree -/
+/-! ## the remaining side condition is needed: where the two models disagree (and, for `unsplit`,
+where they used to) -/
 
-/-- **Disagreement 1 (advance).**  When `advance` pushes a KIND_VEC handle beyond `MAX_VEC_POS`, M1 —
+/-- **Disagreement (advance).**  When `advance` pushes a KIND_VEC handle beyond `MAX_VEC_POS`, M1 —
 like `advance_unchecked` of the crate — promotes it to KIND_ARC (`promote_to_shared(1)`), whereas
 `Recycle.step _ (.advance n)` leaves `arc = false`: the resulting handle is *not* related to
 `Recycle.step r (.advance n)` (it is related to that record with `arc := true`, see
@@ -854,24 +1681,24 @@ example : Recycle.run (Recycle.init 8) [.splitTo 0] = rA := by decide
 example : Recycle.HistOK 16 (Recycle.init 8) [.splitTo 0, .unsplitLast 0 0] := by
   simp [Recycle.HistOK, Recycle.OpOKM, Recycle.step, Recycle.init, Recycle.promote]
 
-/-- **Disagreement 2 (unsplit onto an empty main handle with spare capacity).**  All hypotheses of
-`step_unsplitLast_refines` except `hfull` hold in `sA` (a reachable, well-formed state; the part in
-slot 1 starts at `off + len` and is on the same control block), but `BytesMut::unsplit` executes
-`*self = other` when `self.is_empty()`: the main handle ends up with capacity 0 and nobody else on
-the block, while `Recycle.step rA (.unsplitLast 0 0) = rA` keeps `cap = 8`, `parts = 1`. -/
-theorem unsplit_empty_disagrees :
+/-- **Agreement 1 (unsplit onto an empty main handle with spare capacity)** — formerly a witness of
+disagreement.  In `sA` (a reachable, well-formed state; the part in slot 1 starts at `off + len` and is
+on the same control block) `BytesMut::unsplit` executes `*self = other` because `self.is_empty()`: the
+main handle ends up with capacity 0 and nobody else on the block.  `Recycle.step rA (.unsplitLast 0 0)`
+now does the same (`cap = 0`, `parts = 0`), and the handle of `sA'` is related to it — by computation
+and as an instance of `step_unsplitLast_refines`. -/
+theorem unsplit_empty_agrees :
     WFx sA ∧ sA.hs[0]? = some (some (.mut (some 0) (some 0) 0 0 8 0)) ∧
     RecView sA (.mut (some 0) (some 0) 0 0 8 0) rA ∧
     sA.hs[1]? = some (some (.mut (some 0) (some 0) (0 + 0) 0 0 0)) ∧
     step cfg0 env0 (.unsplit 0 1) sA = .ok .unit sA' ∧
     sA'.hs[0]? = some (some (.mut (some 0) (some 0) 0 0 0 0)) ∧
-    RecView sA' (.mut (some 0) (some 0) 0 0 0 0) { rA with cap := 0, parts := 0 } ∧
-    Recycle.step rA (.unsplitLast 0 0) = rA ∧
-    ¬ RecView sA' (.mut (some 0) (some 0) 0 0 0 0) (Recycle.step rA (.unsplitLast 0 0)) := by
-  refine ⟨wfxA, rfl, viewA, rfl, stepA2, rfl, ⟨some 0, 0, 8, 0, 1, rfl, rfl, rfl, rfl, rfl, rfl, rfl, rfl⟩,
-    by decide, ?_⟩
-  rintro ⟨_, _, _, _, _, _, _, _, _, hc, _⟩
-  revert hc; decide
+    Recycle.step rA (.unsplitLast 0 0) = { rA with cap := 0, parts := 0 } ∧
+    RecView sA' (.mut (some 0) (some 0) 0 0 0 0) (Recycle.step rA (.unsplitLast 0 0)) :=
+  ⟨wfxA, rfl, viewA, rfl, stepA2, rfl, by decide, ⟨some 0, 0, 8, 0, 1, rfl, rfl, rfl, rfl, rfl, rfl, rfl, rfl⟩⟩
+
+example : Sim sA rA 0 sA' (Recycle.step rA (.unsplitLast 0 0)) :=
+  step_unsplitLast_refines cfg0 env0 wfxA (i := 0) (j := 1) rfl rA viewA rfl stepA2
 
 /-- `with_capacity(8)`, `extend(4 bytes)`, `split_off(4)` (slot 1: the tail), `split_to(0)` on the tail
 (slot 2: an empty zero-capacity part at offset 4), `unsplit` of the tail: the main handle is
@@ -898,28 +1725,24 @@ theorem wfxB : WFx sB := by
     h2 trivial) h3 trivial
 theorem stepB : step cfg0 env0 (.unsplit 0 2) sB = .ok .unit sB' := rfl
 
-/-- **Disagreement 3 (unsplit of an empty part onto a main handle that is not full).**  M1 (like the
-crate: `other.capacity() == 0` ⇒ `Ok(())`, `other` dropped) releases the part's reference, so
-`parts` goes from 1 to 0; `Recycle.step rB (.unsplitLast 0 0) = rB` (because `len ≠ cap`) still
-counts the part. -/
-theorem unsplit_notfull_disagrees :
+/-- **Agreement 2 (unsplit of an empty part onto a main handle that is not full)** — formerly a
+witness of disagreement.  M1 (like the crate: `other.capacity() == 0` ⇒ `Ok(())`, `other` dropped)
+releases the part's reference, so `parts` goes from 1 to 0; `Recycle.step rB (.unsplitLast 0 0)` now
+drops the part too although `len ≠ cap`. -/
+theorem unsplit_notfull_agrees :
     WFx sB ∧ sB.hs[0]? = some (some (.mut (some 0) (some 0) 0 4 8 0)) ∧
     RecView sB (.mut (some 0) (some 0) 0 4 8 0) rB ∧
     sB.hs[2]? = some (some (.mut (some 0) (some 0) (0 + 4) 0 0 0)) ∧
     step cfg0 env0 (.unsplit 0 2) sB = .ok .unit sB' ∧
     sB'.hs[0]? = some (some (.mut (some 0) (some 0) 0 4 8 0)) ∧
-    RecView sB' (.mut (some 0) (some 0) 0 4 8 0) { rB with parts := 0 } ∧
-    Recycle.step rB (.unsplitLast 0 0) = rB ∧
-    ¬ RecView sB' (.mut (some 0) (some 0) 0 4 8 0) (Recycle.step rB (.unsplitLast 0 0)) := by
-  refine ⟨wfxB, rfl, ⟨some 0, 4, 8, 0, 2, rfl, rfl, rfl, rfl, rfl, rfl, rfl, rfl⟩, rfl, stepB, rfl,
-    ⟨some 0, 4, 8, 0, 1, rfl, rfl, rfl, rfl, rfl, rfl, rfl, rfl⟩, by decide, ?_⟩
-  rintro ⟨_, _, _, _, rc, he, _, _, _, _, _, _, hp⟩
-  have : rc = 1 := by
-    have : (⟨.sharedV (some 0) 4 8 0, 1, true⟩ : CtrlE) = ⟨.sharedV _ _ _ _, rc, true⟩ :=
-      Option.some.inj he
-    exact (CtrlE.mk.inj this).2.1.symm
-  subst this
-  revert hp; decide
+    Recycle.step rB (.unsplitLast 0 0) = { rB with parts := 0 } ∧
+    RecView sB' (.mut (some 0) (some 0) 0 4 8 0) (Recycle.step rB (.unsplitLast 0 0)) :=
+  ⟨wfxB, rfl, ⟨some 0, 4, 8, 0, 2, rfl, rfl, rfl, rfl, rfl, rfl, rfl, rfl⟩, rfl, stepB, rfl, by decide,
+    ⟨some 0, 4, 8, 0, 1, rfl, rfl, rfl, rfl, rfl, rfl, rfl, rfl⟩⟩
+
+example : Sim sB rB 0 sB' (Recycle.step rB (.unsplitLast 0 0)) :=
+  step_unsplitLast_refines cfg0 env0 wfxB (i := 0) (j := 2) rfl rB
+    ⟨some 0, 4, 8, 0, 2, rfl, rfl, rfl, rfl, rfl, rfl, rfl, rfl⟩ rfl stepB
 
 end Witness
 
@@ -980,7 +1803,7 @@ def sEnd2 : St := round2.foldl (fun s p => exec p.2 s) s1
 theorem round2_run : Run cfg0 env0 0 s1 (Recycle.init 8) round2 sEnd2 := by
   refine Run.cons (s' := sEnd2) (Match.append [1, 2, 3, 4]) (v := .unit) rfl ?_
   refine Run.cons (s' := sEnd2) (Match.splitOffTail _ _ _ 4 _ _ rfl) (v := .handle 1) rfl ?_
-  refine Run.cons (s' := sEnd2) (Match.unsplitLast 1 0 (some 0) 0 4 4 0 0 4 0 rfl rfl (by decide))
+  refine Run.cons (s' := sEnd2) (Match.unsplitLast 1 0 (some 0) 0 4 4 0 0 4 0 rfl rfl)
     (v := .unit) rfl ?_
   refine Run.cons (s' := sEnd2) (Match.reserve 20) (v := .unit) rfl ?_
   exact Run.nil _ _
@@ -991,6 +1814,490 @@ example : Recycle.run (Recycle.init 8) (round2.map Prod.fst) =
 
 example : sEnd2.hs[0]? = some (some (.mut (some 0) (some 1) 0 4 24 0)) ∧ allocCount sEnd2.events = 2 := by
   decide
+
+/-- a third history: the round trip through `Bytes` in all its branches — a KIND_VEC handle with spare
+capacity (`Shared { buf, cap }` of bytes.rs and back), a handle with a live part (copied into a fresh
+exact-size vector; the old allocation stays with the part), the resulting full KIND_VEC handle
+(promotable, through `try_into_mut`), and a unique KIND_ARC handle (`shared_v_to_mut`) -/
+def round3 : List (Recycle.Op × Op) :=
+  [(.append 4, .extend 0 [1, 2, 3, 4]), (.roundTrip, .intoMut 0), (.splitTo 2, .splitTo 0 2),
+   (.roundTrip, .intoMut 0), (.roundTrip, .tryIntoMut 0), (.splitTo 1, .splitTo 0 1), (.dropPart, .drop 2),
+   (.roundTrip, .tryIntoMut 0)]
+
+/-- the M1 operations of a history, with the `freeze` of every round trip spelled out -/
+def mops (i : Nat) : List (Recycle.Op × Op) → List Op
+  | [] => []
+  | (.roundTrip, mop) :: ps => .freeze i :: mop :: mops i ps
+  | (_, mop) :: ps => mop :: mops i ps
+
+def sEnd3 : St := (mops 0 round3).foldl (fun s mop => exec mop s) s1
+
+theorem round3_run : Run cfg0 env0 0 s1 (Recycle.init 8) round3 sEnd3 := by
+  refine Run.cons (s' := sEnd3) (Match.append [1, 2, 3, 4]) (v := .unit) rfl ?_
+  refine Run.roundTrip (s' := sEnd3) (.inl rfl) (v1 := .handle 0) (v2 := .handle 0) rfl rfl ?_
+  refine Run.cons (s' := sEnd3) (Match.splitTo 2) (v := .handle 1) rfl ?_
+  refine Run.roundTrip (s' := sEnd3) (.inl rfl) (v1 := .handle 0) (v2 := .handle 0) rfl rfl ?_
+  refine Run.roundTrip (s' := sEnd3) (.inr ⟨rfl, rfl⟩) (v1 := .handle 0) (v2 := .handle 0) rfl rfl ?_
+  refine Run.cons (s' := sEnd3) (Match.splitTo 1) (v := .handle 2) rfl ?_
+  refine Run.cons (s' := sEnd3) (Match.dropPart 2 2 _ _ _ _ _ _ (by decide) rfl rfl rfl) (v := .unit) rfl ?_
+  refine Run.roundTrip (s' := sEnd3) (.inr ⟨rfl, rfl⟩) (v1 := .handle 0) (v2 := .handle 0) rfl rfl ?_
+  exact Run.nil _ _
+
+/-- what the recycling model computes for it: the copy made the second allocation (2 bytes, exact
+size), the 8-byte one is pinned by the part; the last round trip gives the capacity behind the offset
+back (`cap = A - off = 1`) -/
+example : Recycle.run (Recycle.init 8) (round3.map Prod.fst) =
+    { A := 2, off := 1, len := 1, cap := 1, arc := true, orig := 0, parts := 0, pinned := [8], allocs := 2 } := by
+  decide
+
+/-- … and M1 agrees (`run_refines` says so in general) -/
+example : sEnd3.hs[0]? = some (some (.mut (some 2) (some 1) 1 1 1 0)) ∧ allocCount sEnd3.events = 2 ∧
+    Sim s1 (Recycle.init 8) 0 sEnd3 (Recycle.run (Recycle.init 8) (round3.map Prod.fst)) :=
+  ⟨by decide, by decide,
+    (run_refines cfg0 env0 round3_run (WFx_step WFx_init step1 trivial) (i := 0) rfl
+      ⟨rfl, rfl, rfl, rfl, by decide, rfl, rfl⟩).2⟩
+
+example : Recycle.HistOK 16 (Recycle.init 8) (round3.map Prod.fst) := by
+  simp [round3, Recycle.HistOK, Recycle.OpOKM, Recycle.step, Recycle.reserve, Recycle.init, Recycle.promote,
+    Recycle.growCap, Recycle.origRepr, Recycle.bitWidth]
+
+/-! the fall-back branch of `unsplitLast` -/
+
+theorem WFx_exec {mop : Op} {s : St} (hw : WFx s) (ho : OpOK mop) : WFx (exec mop s) := by
+  unfold exec
+  cases h : step cfg0 env0 mop s with
+  | ok v s' => exact WFx_step hw h ho
+  | panic s' => exact hw
+  | ub w s' => exact hw
+
+/-- `with_capacity(8)`, 4 bytes, `split_off(4)` (slot 1: the spare capacity), `truncate(2)`, 3 bytes
+written into the tail: the main handle is `(off 0, len 2, cap 4)`, the part `(off 4, len 3, cap 4)` does
+not start at `off + len = 2` -/
+def sC : St :=
+  [Op.extend 0 [1, 2, 3, 4], .splitOff 0 4, .truncate 0 2, .extend 1 [9, 9, 9]].foldl (fun s m => exec m s) s1
+
+theorem wfxC : WFx sC :=
+  WFx_exec (mop := .extend 1 [9, 9, 9]) (WFx_exec (mop := .truncate 0 2) (WFx_exec (mop := .splitOff 0 4)
+    (WFx_exec (mop := .extend 0 [1, 2, 3, 4]) (WFx_step WFx_init step1 trivial) trivial) trivial) trivial) trivial
+
+def rC : Rec := { A := 8, off := 0, len := 2, cap := 4, arc := true, orig := 0, parts := 1, pinned := [], allocs := 1 }
+
+/-- `unsplit` cannot merge and copies the 3 bytes; they do not fit the 2 bytes of spare capacity and
+the part is alive, so the main handle moves to a fresh 5-byte vector (M1 then frees the old allocation
+with the part; the recycling model keeps it in `pinned` until a `dropPinned`) -/
+example : Recycle.step rC (.unsplitLast 3 4) =
+      { A := 5, off := 0, len := 5, cap := 5, arc := false, orig := 0, parts := 0, pinned := [8], allocs := 2 } ∧
+    (exec (.unsplit 0 1) sC).hs[0]? = some (some (.mut none (some 1) 0 5 5 0)) ∧
+    Sim sC rC 0 (exec (.unsplit 0 1) sC) (Recycle.step rC (.unsplitLast 3 4)) :=
+  ⟨by decide, by decide,
+    step_unsplit_copy_refines cfg0 env0 wfxC (i := 0) (j := 1) (c := 0) (reg := some 0) (off := 0) (len := 2)
+      (cap := 4) (orig := 0) (ooff := 4) (olen := 3) (ocap := 4) (oorig := 0) rfl rC
+      ⟨some 0, 4, 8, 0, 2, rfl, rfl, rfl, rfl, rfl, rfl, rfl, rfl⟩ rfl (by decide) (by decide) (by decide)
+      (by decide) (v := .unit) rfl⟩
+
+/-- `try_into_mut` does not succeed on the frozen *empty* KIND_VEC handle without allocation
+(`BytesMut::new().freeze()` is the static empty `Bytes`, whose `is_unique` is `false`): the handle comes
+back as `Err`, so the round trip through `try_into_mut` only refines `roundTrip` when there is an
+allocation (`step_tryIntoMut_refines`); through `BytesMut::from` it always does. -/
+example : ∃ s0 sF, step cfg0 env0 (.mutWithCapacity 0) {} = .ok (.handle 0) s0 ∧
+    step cfg0 env0 (.freeze 0) s0 = .ok (.handle 0) sF ∧
+    sF.hs[0]? = some (some (.bytes .static none 0 0)) ∧
+    step cfg0 env0 (.tryIntoMut 0) sF = .ok (.err 0) sF ∧
+    ∃ sM, step cfg0 env0 (.intoMut 0) sF = .ok (.handle 0) sM ∧
+      RecView sM (.mut none none 0 0 0 0) (Recycle.step (Recycle.init 0) .roundTrip) :=
+  ⟨_, _, rfl, rfl, rfl, rfl, _, rfl, ⟨rfl, rfl, rfl, rfl, by decide, rfl, rfl⟩⟩
+
+end Example
+
+
+/-! ## tying `pinned`: the relation `RecViewP` -/
+
+/-- what a control block contributes to the pinned list: a live `Shared` of bytes_mut.rs keeps its
+vector (of capacity `vcap`, possibly 0) alive -/
+def ctrlPinned : CtrlE → Option Nat
+  | ⟨.sharedV _ _ vcap _, _, true⟩ => some vcap
+  | _ => none
+
+/-- the capacities of the vectors of the live `Shared` blocks other than `c0`, *oldest first*
+(`k` is the index of the head of the list) -/
+def sharedSizes (c0 : Option Nat) : List CtrlE → Nat → List Nat
+  | [], _ => []
+  | e :: es, k => (if some k = c0 then [] else (ctrlPinned e).toList) ++ sharedSizes c0 es (k + 1)
+
+/-- … newest first, as `Rec.pinned` lists them -/
+def pinnedL (C : List CtrlE) (c0 : Option Nat) : List Nat := (sharedSizes c0 C 0).reverse
+
+/-- **`RecView` with `pinned` tied down**: in addition to `RecView`, `r.pinned` lists (newest first)
+the sizes of the older allocations that are kept alive only by parts — the vectors of all live `Shared`
+blocks of bytes_mut.rs other than the one the main handle is on — and the main handle's block, if it
+has one, is the newest of them (blocks are created by `promote_to_shared`, always on the current
+allocation).  Meant for the states of a recycling loop, where every such block stems from the main
+handle; `allocs` stays unconstrained (it is tied to the event list by `Sim`). -/
+def RecViewP (s : St) (h : Handle) (r : Rec) : Prop :=
+  RecView s h r ∧ r.pinned = pinnedL s.ctrls (arcOf h) ∧
+    ∀ c, arcOf h = some c → ∀ (c' : Nat) (e : CtrlE), c < c' → s.ctrls[c']? = some e → ctrlPinned e = none
+
+theorem RecViewP.view {s : St} {h : Handle} {r : Rec} (hv : RecViewP s h r) : RecView s h r := hv.1
+
+/-! ### list lemmas -/
+
+/-- replacing a block by one with the same contribution (e.g. another reference count) -/
+theorem sharedSizes_set_same (c0 : Option Nat) {e e' : CtrlE} (he : ctrlPinned e' = ctrlPinned e) :
+    ∀ (es : List CtrlE) (k c : Nat), es[c]? = some e → sharedSizes c0 (es.set c e') k = sharedSizes c0 es k := by
+  intro es
+  induction es with
+  | nil => intro k c h; simp at h
+  | cons x xs ih =>
+    intro k c h
+    cases c with
+    | zero =>
+      simp only [List.getElem?_cons_zero, Option.some.injEq] at h
+      subst h
+      simp only [List.set_cons_zero, sharedSizes, he]
+    | succ c =>
+      simp only [List.getElem?_cons_succ] at h
+      simp only [List.set_cons_succ, sharedSizes, ih (k + 1) c h]
+
+/-- the main handle leaves its block `c`, the newest one: the block joins the list at the new end -/
+theorem sharedSizes_leave {e : CtrlE} {v : Nat} (he : ctrlPinned e = some v) :
+    ∀ (es : List CtrlE) (k c : Nat), es[c]? = some e →
+      (∀ (c' : Nat) (e' : CtrlE), c < c' → es[c']? = some e' → ctrlPinned e' = none) →
+      sharedSizes none es k = sharedSizes (some (k + c)) es k ++ [v] := by
+  intro es
+  induction es with
+  | nil => intro k c h; simp at h
+  | cons x xs ih =>
+    intro k c h hnew
+    cases c with
+    | zero =>
+      simp only [List.getElem?_cons_zero, Option.some.injEq] at h
+      subst h
+      -- nothing behind the head contributes
+      have hrest : ∀ (ys : List CtrlE) (j : Nat) (c0 : Option Nat),
+          (∀ (c' : Nat) (e' : CtrlE), ys[c']? = some e' → ctrlPinned e' = none) → sharedSizes c0 ys j = [] := by
+        intro ys
+        induction ys with
+        | nil => intros; rfl
+        | cons y ys ihy =>
+          intro j c0 hy
+          have h0 := hy 0 y rfl
+          simp only [sharedSizes, h0, Option.toList_none, ite_self, List.nil_append]
+          exact ihy (j + 1) c0 (fun c' e' hc' => hy (c' + 1) e' (by simpa using hc'))
+      have hxs : ∀ (c' : Nat) (e' : CtrlE), xs[c']? = some e' → ctrlPinned e' = none :=
+        fun c' e' hc' => hnew (c' + 1) e' (by omega) (by simpa using hc')
+      simp [sharedSizes, he, hrest xs (k + 1) _ hxs]
+    | succ c =>
+      simp only [List.getElem?_cons_succ] at h
+      have hnew' : ∀ (c' : Nat) (e' : CtrlE), c < c' → xs[c']? = some e' → ctrlPinned e' = none :=
+        fun c' e' hlt hc' => hnew (c' + 1) e' (by omega) (by simpa using hc')
+      have := ih (k + 1) c h hnew'
+      have hk : k + 1 + c = k + (c + 1) := by omega
+      rw [hk] at this
+      have hne : ¬ (some k = some (k + (c + 1))) := by intro h; injection h with h; omega
+      simp only [sharedSizes, this, hne, if_false, reduceCtorEq, List.append_assoc]
+
+/-- the oldest contributing block dies -/
+theorem sharedSizes_kill (c0 : Option Nat) {e e' : CtrlE} {v : Nat} (he : ctrlPinned e = some v)
+    (he' : ctrlPinned e' = none) :
+    ∀ (es : List CtrlE) (k c : Nat), es[c]? = some e → some (k + c) ≠ c0 →
+      (∀ (c'' : Nat) (e'' : CtrlE), c'' < c → es[c'']? = some e'' → some (k + c'') ≠ c0 → ctrlPinned e'' = none) →
+      sharedSizes c0 es k = v :: sharedSizes c0 (es.set c e') k := by
+  intro es
+  induction es with
+  | nil => intro k c h; simp at h
+  | cons x xs ih =>
+    intro k c h hc0 hold
+    cases c with
+    | zero =>
+      simp only [List.getElem?_cons_zero, Option.some.injEq] at h
+      subst h
+      have hc0' : ¬ some k = c0 := by simpa using hc0
+      simp [sharedSizes, hc0', he, he']
+    | succ c =>
+      simp only [List.getElem?_cons_succ] at h
+      have hk : k + 1 + c = k + (c + 1) := by omega
+      have := ih (k + 1) c h (by rw [hk]; exact hc0)
+        (fun c'' e'' hlt hc'' hne => hold (c'' + 1) e'' (by omega) (by simpa using hc'')
+          (by rw [show k + (c'' + 1) = k + 1 + c'' by omega]; exact hne))
+      have hx : (if some k = c0 then [] else (ctrlPinned x).toList) = [] := by
+        by_cases hk0 : some k = c0
+        · simp [hk0]
+        · have := hold 0 x (by omega) rfl (by simpa using hk0)
+          simp [hk0, this]
+      simp only [List.set_cons_succ, sharedSizes, hx, List.nil_append, this]
+
+/-! ### the shared branch of `reserve` -/
+
+/-- `reserve` on a KIND_ARC handle that shares its block with live parts and has to grow: the handle
+moves to a fresh KIND_VEC vector, its old block only loses one reference -/
+theorem mutReserve_shared_ctrls {s : St} (hI : Inv s) (cfg : Cfg) (e : Env) {i c : Nat} {reg : Option Nat}
+    {off len cap orig : Nat} (hi : s.hs[i]? = some (some (.mut (some c) reg off len cap orig)))
+    (k : Nat) (hadd : ¬ k ≤ cap - len) {vreg : Option Nat} {vlen vcap vorig rc : Nat}
+    (he : s.ctrls[c]? = some ⟨.sharedV vreg vlen vcap vorig, rc, true⟩) (hu : rc ≠ 1)
+    {h' : Handle} {s' : St}
+    (hok : mutReserve cfg e (.mut (some c) reg off len cap orig) k s = .ok h' s') :
+    s'.ctrls = s.ctrls.set c ⟨.sharedV vreg vlen vcap vorig, rc - 1, true⟩ ∧ arcOf h' = none := by
+  have hok0 := hI.hok i _ hi
+  obtain ⟨hlc, _, hrd⟩ := handleOKL_mutA.mp hok0
+  obtain ⟨v, hv0⟩ := Option.isSome_iff_exists.mp hrd
+  have hrc1 : 1 ≤ rc := (hI.cok c _ he rfl).2.1
+  by_cases hW : len + k ≥ W
+  · exfalso
+    have h1 : mutReserveInner cfg e (.mut (some c) reg off len cap orig) k true s = .panic s := by
+      simp only [mutReserveInner, bind_apply, ite_apply', if_pos hW, if_true, panic_apply]
+    rw [mutReserve_of_inner_panic hadd h1] at hok
+    cases hok
+  have hget : getCtrl c s = .ok ⟨.sharedV vreg vlen vcap vorig, rc, true⟩ s := getCtrl_eq (s := s) he rfl
+  obtain ⟨T, hT⟩ : ∃ T, T = max (len + k) (originalCapacityFromRepr vorig) := ⟨_, rfl⟩
+  have hTle : len + k ≤ T := by rw [hT]; exact Nat.le_max_left _ _
+  have hT0 : T ≠ 0 := by omega
+  have hrdX : readRange reg off len s = .ok v s := readRange_of_rdL (s := s) hv0
+  by_cases hTmax : T > isizeMax
+  · exfalso
+    have h1 : mutReserveInner cfg e (.mut (some c) reg off len cap orig) k true s = .panic s := by
+      simp only [mutReserveInner, bind_apply, ite_apply', if_neg hW, hget, if_neg hu, Bool.not_true,
+        Bool.false_eq_true, if_false, hrdX, ← hT, vecNew_panic e v hTmax]
+    rw [mutReserve_of_inner_panic hadd h1] at hok
+    cases hok
+  · have hTmax' : T ≤ isizeMax := by omega
+    have hrel : releaseCtrl c ⟨s.regions ++ [vecRegion v T (e.odd s.regions.length)], s.ctrls, s.hs,
+          s.owners, .alloc s.regions.length T :: s.events⟩ = .ok ()
+        ⟨s.regions ++ [vecRegion v T (e.odd s.regions.length)],
+          s.ctrls.set c ⟨.sharedV vreg vlen vcap vorig, rc - 1, true⟩, s.hs, s.owners,
+          .alloc s.regions.length T :: s.events⟩ :=
+      releaseCtrl_dec (s := ⟨s.regions ++ [vecRegion v T (e.odd s.regions.length)], s.ctrls, s.hs,
+        s.owners, .alloc s.regions.length T :: s.events⟩) he rfl (by simp only; omega) hu
+    have h1 : mutReserveInner cfg e (.mut (some c) reg off len cap orig) k true s =
+        .ok (.mut none (some s.regions.length) 0 len T vorig, true)
+          ⟨s.regions ++ [vecRegion v T (e.odd s.regions.length)],
+            s.ctrls.set c ⟨.sharedV vreg vlen vcap vorig, rc - 1, true⟩, s.hs, s.owners,
+            .alloc s.regions.length T :: s.events⟩ := by
+      simp only [mutReserveInner, bind_apply, ite_apply', if_neg hW, hget, if_neg hu, Bool.not_true,
+        Bool.false_eq_true, if_false, hrdX, ← hT, vecNew_eq' e v hT0 hTmax', hrel, pure_apply]
+    rw [mutReserve_of_inner hadd h1] at hok
+    obtain ⟨rfl, rfl⟩ := R.ok.inj hok
+    exact ⟨rfl, rfl⟩
+
+/-- **The shared branch of `reserve` preserves `RecViewP`**: when the main handle shares its block with
+live parts and has to grow (`Recycle.reserve`'s last branch: `pinned := r.A :: r.pinned`), the old
+allocation — still held by the parts through the block the main handle leaves — becomes the newest
+entry of the pinned list. -/
+theorem step_reserve_shared_refinesP (cfg : Cfg) (e : Env) {s s' : St} (hw : WFx s) {i k : Nat} {v : Val}
+    {c : Nat} {reg : Option Nat} {off len cap orig : Nat}
+    (hi : s.hs[i]? = some (some (.mut (some c) reg off len cap orig))) (r : Rec)
+    (hv : RecViewP s (.mut (some c) reg off len cap orig) r)
+    (hadd : ¬ k ≤ cap - len) (hp : r.parts ≠ 0)
+    (hok : step cfg e (.reserve i k) s = .ok v s') :
+    (Recycle.reserve r k).pinned = r.A :: r.pinned ∧
+    ∃ h', s'.hs[i]? = some (some h') ∧ RecViewP s' h' (Recycle.reserve r k) ∧
+      allocCount s'.events + r.allocs = allocCount s.events + (Recycle.reserve r k).allocs := by
+  obtain ⟨hv1, hpin, hnew⟩ := hv
+  obtain ⟨vreg, vlen, vcap, vorig, rc, he, ra, ro, rl, rcp, rorig, rA, rp⟩ := RecView_arc.mp hv1
+  have hu : rc ≠ 1 := by rw [rp] at hp; omega
+  have e1 := rsv_arc_shared r k (by rw [rcp, rl]; exact hadd) ra hp
+  have epin : (Recycle.reserve r k).pinned = r.A :: r.pinned := by rw [e1]
+  refine ⟨epin, ?_⟩
+  obtain ⟨h', hi', hv', ha'⟩ := step_reserve_refines_strong cfg e hw hi r hv1 hok
+  -- the new control blocks and the shape of the new handle
+  have key : s'.ctrls = s.ctrls.set c ⟨.sharedV vreg vlen vcap vorig, rc - 1, true⟩ ∧ arcOf h' = none := by
+    simp only [step, bind_apply, getHandle_eq hi] at hok
+    cases hm : mutReserve cfg e (.mut (some c) reg off len cap orig) k s with
+    | panic s1 => rw [hm] at hok; cases hok
+    | ub w s1 => rw [hm] at hok; cases hok
+    | ok h1 s1 =>
+      rw [hm] at hok
+      simp only [setHandle_apply, pure_apply] at hok
+      obtain ⟨_, rfl⟩ := R.ok.inj hok
+      obtain ⟨hC, harc⟩ := mutReserve_shared_ctrls hw.inv cfg e hi k hadd he hu hm
+      have hs1 := (reserve_refines_strong cfg e hw.inv hi k r hv1 h1 s1 hm).1
+      have hh : h' = h1 := by
+        have : (s1.hs.set i (some h1))[i]? = some (some h1) := by rw [hs1]; exact lookup_set_eq _ hi
+        have hi'' : (s1.hs.set i (some h1))[i]? = some (some h') := hi'
+        rw [this] at hi''
+        exact (Option.some.inj (Option.some.inj hi'')).symm
+      subst hh
+      exact ⟨hC, harc⟩
+  obtain ⟨hC, harc⟩ := key
+  refine ⟨h', hi', ⟨hv', ?_, ?_⟩, ha'⟩
+  · -- the pinned list
+    rw [epin, harc, hC, hpin, rA]
+    unfold pinnedL
+    rw [sharedSizes_set_same none (e := ⟨.sharedV vreg vlen vcap vorig, rc, true⟩)
+      (e' := ⟨.sharedV vreg vlen vcap vorig, rc - 1, true⟩) rfl _ 0 c he]
+    have := sharedSizes_leave (e := ⟨.sharedV vreg vlen vcap vorig, rc, true⟩) (v := vcap) rfl s.ctrls 0 c he
+      (hnew c rfl)
+    rw [this, Nat.zero_add, List.reverse_append]
+    rfl
+  · -- a KIND_VEC handle has no block
+    intro c0 hc0
+    rw [harc] at hc0; cases hc0
+
+/-! ### `dropPinned` -/
+
+/-- `release` of the last reference to a `Shared` of bytes_mut.rs, with the events spelled out: only
+deallocations are recorded -/
+theorem releaseCtrl_last_sharedV {s : St} {c : Nat} {reg : Option Nat} {vlen vcap orig : Nat}
+    (hc : s.ctrls[c]? = some ⟨.sharedV reg vlen vcap orig, 1, true⟩)
+    (hb : ctrlBufOK s.regions s.owners (.sharedV reg vlen vcap orig))
+    (hR : ∀ (r : Nat) (rg : Region), s.regions[r]? = some rg → regionOKB rg = true) :
+    ∃ ev, allocCount ev = allocCount s.events ∧ releaseCtrl c s = .ok ()
+      { s with regions := freeBuf s.regions (.sharedV reg vlen vcap orig),
+               ctrls := s.ctrls.set c ⟨.sharedV reg vlen vcap orig, 0, false⟩,
+               events := ev } := by
+  have hc' : (s.ctrls.set c ⟨.sharedV reg vlen vcap orig, 0, true⟩)[c]? =
+      some ⟨.sharedV reg vlen vcap orig, 0, true⟩ := lookup_set_eq _ hc
+  simp only [releaseCtrl, bind_apply, getCtrl_eq hc rfl, Nat.one_ne_zero, if_false, ne_eq,
+    not_true_eq_false, setCtrl_apply]
+  cases reg with
+  | none =>
+    simp only [ctrlBufOK] at hb
+    subst hb
+    simp only [bind_apply, vecFree_none]
+    rw [freeCtrl_eq (c := c) (e := ⟨.sharedV none vlen 0 orig, 0, true⟩) hc' rfl]
+    simp only [freeBuf, List.set_set]
+    exact ⟨_, by simp [allocCount, List.countP_cons, isAlloc], rfl⟩
+  | some r =>
+    simp only [ctrlBufOK] at hb
+    have h0 : vcap ≠ 0 := by rw [← hb.2]; exact heap_size_pos hR hb.1
+    obtain ⟨rg, hr, hlive, hsz, hfree⟩ :=
+      vecFree_some (s := { s with ctrls := s.ctrls.set c ⟨.sharedV (some r) vlen vcap orig, 0, true⟩ })
+        hb.1 hb.2 h0
+    simp only at hr
+    simp only [bind_apply, hfree]
+    rw [freeCtrl_eq (c := c) (e := ⟨.sharedV (some r) vlen vcap orig, 0, true⟩) hc' rfl]
+    have hfb : freeBuf s.regions (.sharedV (some r) vlen vcap orig) = s.regions.set r rg.kill := by
+      simp [freeBuf, hr]
+    simp only [hfb, List.set_set]
+    exact ⟨_, by simp [allocCount, List.countP_cons, isAlloc], rfl⟩
+
+/-- freeing the vector of a block does not change the size of any region -/
+theorem bufSizeL_freeBuf_sharedV (R : List Region) (reg : Option Nat) (vlen vcap orig : Nat) (x : Option Nat) :
+    bufSizeL (freeBuf R (.sharedV reg vlen vcap orig)) x = bufSizeL R x := by
+  cases reg with
+  | none => rfl
+  | some r0 =>
+    simp only [freeBuf]
+    cases hr : R[r0]? with
+    | none => rfl
+    | some rg =>
+      cases x with
+      | none => rfl
+      | some x =>
+        simp only [bufSizeL]
+        by_cases hx : x = r0
+        · subst hx
+          simp [regionSizeL_def, hr, lookup_set_eq _ hr, Region.kill]
+        · exact regionSizeL_set_ne _ (Ne.symm hx)
+
+theorem rstep_dropPinned (r : Rec) : Recycle.step r .dropPinned = { r with pinned := r.pinned.dropLast } := rfl
+
+/-- **`Op.drop j` of the last handle on the oldest pinned allocation refines `Recycle.Op.dropPinned`
+and preserves `RecViewP`**: `j` holds the only reference (`rc = 1`) to a live `Shared` block `c'` of
+bytes_mut.rs that is not the main handle's, and no older block is pinned.  The block and its vector
+are freed; the main handle is untouched; the oldest entry leaves the pinned list. -/
+theorem step_dropPinned_refinesP (cfg : Cfg) (e : Env) {s s' : St} (hw : WFx s) {i j c' : Nat} {v : Val}
+    {h hj : Handle} (hi : s.hs[i]? = some (some h)) (r : Rec) (hv : RecViewP s h r)
+    (hjl : s.hs[j]? = some (some hj)) (hjc : ctrlOf hj = some c') (hne : arcOf h ≠ some c')
+    {vreg : Option Nat} {vlen vcap vorig : Nat}
+    (he : s.ctrls[c']? = some ⟨.sharedV vreg vlen vcap vorig, 1, true⟩)
+    (hold : ∀ (c'' : Nat) (e'' : CtrlE), c'' < c' → s.ctrls[c'']? = some e'' → some c'' ≠ arcOf h →
+      ctrlPinned e'' = none)
+    (hok : step cfg e (.drop j) s = .ok v s') :
+    s'.hs[i]? = some (some h) ∧ RecViewP s' h (Recycle.step r .dropPinned) ∧
+      allocCount s'.events + r.allocs = allocCount s.events + (Recycle.step r .dropPinned).allocs := by
+  have hI := hw.inv
+  obtain ⟨hv1, hpin, hnew⟩ := hv
+  obtain ⟨arc, reg, off, len, cap, orig, rfl⟩ := RecView.is_mut hv1
+  have hij : j ≠ i := by
+    rintro rfl
+    rw [hi] at hjl
+    obtain rfl := Option.some.inj (Option.some.inj hjl)
+    cases arc with
+    | none => simp [ctrlOf] at hjc
+    | some c => simp only [ctrlOf, Option.some.injEq] at hjc; exact hne (by simp [arcOf, hjc])
+  obtain ⟨_, _, hbuf⟩ := hI.cok c' _ he rfl
+  simp only at hbuf
+  obtain ⟨ev, hev, hrel⟩ := releaseCtrl_last_sharedV (s := { s with hs := s.hs.set j none }) he hbuf hI.regs
+  have hok' : opDrop j s = .ok v s' := hok
+  rw [opDrop_ctrl hjl hjc, hrel] at hok'
+  simp only at hok'
+  obtain ⟨_, rfl⟩ := R.ok.inj hok'
+  have hi' : (s.hs.set j none)[i]? = some (some (.mut arc reg off len cap orig)) := by
+    rw [lookup_set_ne _ hij]; exact hi
+  refine ⟨hi', ⟨?_, ?_, ?_⟩, by rw [rstep_dropPinned]; exact congrArg (· + r.allocs) hev⟩
+  · -- the main handle is untouched
+    rw [rstep_dropPinned]
+    cases arc with
+    | none =>
+      obtain ⟨ra, ro, rl, rcp, rorig, rA, rp⟩ := RecView_vec.mp hv1
+      exact ⟨ra, ro, rl, rcp, rorig, by rw [bufSizeL_freeBuf_sharedV]; exact rA, rp⟩
+    | some c =>
+      have hcc : c' ≠ c := fun h => hne (by simp [arcOf, h])
+      obtain ⟨vreg0, vlen0, vcap0, vorig0, rc0, he0, ra, ro, rl, rcp, rorig, rA, rp⟩ := RecView_arc.mp hv1
+      exact ⟨vreg0, vlen0, vcap0, vorig0, rc0, by rw [lookup_set_ne _ hcc]; exact he0, ra, ro, rl, rcp,
+        rorig, rA, rp⟩
+  · -- the oldest entry leaves the pinned list
+    rw [rstep_dropPinned]
+    show r.pinned.dropLast = pinnedL (s.ctrls.set c' ⟨.sharedV vreg vlen vcap vorig, 0, false⟩) arc
+    have := sharedSizes_kill arc (e := ⟨.sharedV vreg vlen vcap vorig, 1, true⟩)
+      (e' := ⟨.sharedV vreg vlen vcap vorig, 0, false⟩) (v := vcap) rfl rfl s.ctrls 0 c' he
+      (by rw [Nat.zero_add]; exact fun h => hne h.symm)
+      (fun c'' e'' hlt hc'' hn => hold c'' e'' hlt hc'' (by rw [Nat.zero_add] at hn; exact hn))
+    rw [hpin]
+    unfold pinnedL
+    show (sharedSizes arc s.ctrls 0).reverse.dropLast = _
+    rw [this, List.reverse_cons, List.dropLast_concat]
+  · -- the main handle's block is still the newest
+    intro c hc c'' e'' hlt hc''
+    by_cases hcc : c'' = c'
+    · subst hcc
+      rw [lookup_set_eq _ he] at hc''
+      obtain rfl := Option.some.inj hc''
+      rfl
+    · rw [lookup_set_ne _ (Ne.symm hcc)] at hc''
+      exact hnew c hc c'' e'' hlt hc''
+
+/-! ### non-vacuity -/
+
+namespace Example
+
+/-- `BytesMut::with_capacity` on a state without `Shared` blocks gives a `RecViewP`-related handle -/
+example : RecViewP s1 (.mut none (some 0) 0 0 8 0) (Recycle.init 8) :=
+  ⟨⟨rfl, rfl, rfl, rfl, by decide, rfl, rfl⟩, rfl, fun c hc => by cases hc⟩
+
+/-- in `s3` (main handle on block 0 with one part) nothing is pinned -/
+theorem viewP3 : RecViewP s3 (.mut (some 0) (some 0) 2 2 6 0) r3 :=
+  ⟨view3, rfl, fun c hc c' e hlt hc' => by
+    obtain rfl : (0 : Nat) = c := Option.some.inj hc
+    have : s3.ctrls[c']? = none := by
+      show ([⟨.sharedV (some 0) 4 8 0, 2, true⟩] : List CtrlE)[c']? = none
+      rw [List.getElem?_eq_none]; simp; omega
+    rw [this] at hc'; cases hc'⟩
+
+/-- … `reserve(10)` takes the shared branch: the 8-byte allocation is pinned (by the part in slot 1) … -/
+example : ∃ s', step cfg0 env0 (.reserve 0 10) s3 = .ok .unit s' ∧
+    ∃ h', s'.hs[0]? = some (some h') ∧ RecViewP s' h' (Recycle.reserve r3 10) ∧
+      (Recycle.reserve r3 10).pinned = [8] := by
+  refine ⟨_, rfl, ?_⟩
+  obtain ⟨hp, h', h1, h2, _⟩ := step_reserve_shared_refinesP cfg0 env0 wfx3 (i := 0) (k := 10) rfl r3 viewP3
+    (by decide) (by decide) (v := .unit) rfl
+  exact ⟨h', h1, h2, hp⟩
+
+/-- … and dropping that part (`dropPinned`) frees it: the pinned list is empty again -/
+example : ∃ s4 s5, step cfg0 env0 (.reserve 0 10) s3 = .ok .unit s4 ∧
+    step cfg0 env0 (.drop 1) s4 = .ok .unit s5 ∧
+    RecViewP s5 (.mut none (some 1) 0 2 12 0) (Recycle.step (Recycle.reserve r3 10) .dropPinned) ∧
+    (Recycle.step (Recycle.reserve r3 10) .dropPinned).pinned = [] ∧
+    s5.regions[0]? = some ⟨8, [some 1, some 2, some 3, some 4, none, none, none, none], false, .heap false⟩ := by
+  refine ⟨_, _, rfl, rfl, ?_, by decide, rfl⟩
+  have hw4 : WFx (setH s4 0 (.mut none (some 1) 0 2 12 0)) :=
+    WFx_step (cfg := cfg0) (e := env0) wfx3 (op := .reserve 0 10) (v := .unit) rfl trivial
+  obtain ⟨_, h', h1, h2, _⟩ := step_reserve_shared_refinesP cfg0 env0 wfx3 (i := 0) (k := 10) rfl r3 viewP3
+    (by decide) (by decide) (v := .unit) (s' := setH s4 0 (.mut none (some 1) 0 2 12 0)) rfl
+  obtain rfl : Handle.mut none (some 1) 0 2 12 0 = h' := Option.some.inj (Option.some.inj h1)
+  exact (step_dropPinned_refinesP cfg0 env0 hw4 (i := 0) (j := 1) (c' := 0) rfl _ h2 rfl rfl (by decide)
+    (vreg := some 0) (vlen := 4) (vcap := 8) (vorig := 0) rfl (fun c'' e'' h => by omega)
+    (v := .unit) rfl).2.1
 
 end Example
 
